@@ -1,5 +1,74 @@
-(* Proofs/Compose.v -- C07 (prefix composition) and C15, first clause (a maximum wrap
-   width >= the width changes nothing) for the whole renderer model.  No axioms. *)
+(* Proofs/Compose.v -- two whole-renderer properties of the model (Render.v), for all inputs.
+   No axioms (every main theorem is followed by Print Assumptions).
+
+   METHOD.  One lock-step simulation of two runs of render_node (section 1, `node_sim_all`):
+   if the sub-renderer operations respect a relation SR between sub-renderers (record `SimOps`),
+   then two runs from states with the same links and SR-related TOP sub-renderers (the tails of
+   the two stacks are arbitrary and unrelated) have the same outcome kind and end in states
+   related in the same way, with the tails untouched.  Three instances:
+     SR = eq            -> the FRAME property (section 2): render_node only touches the top
+                           sub-renderer and does not depend on the rest of the stack;
+     SR = R2            -> C15 (section 5): run 2 has the options of run 1 + a maximum wrap width;
+     SR = CL (diagonal) -> the invariant `clean_top` (section 6).
+
+   PART A -- C07 (sections 3, 4, 6, 7).  For each prefixing node kind of the model there is a
+   theorem  render_node d mw (RN (I<kind> ..) sty) st0 = Ok st' -> exists ..., <equation>:
+
+     c07_blockquote, c07_header, c07_dd, c07_ul, c07_ol      (and c07_quote_in_quote)
+
+   Common shape.  After apply_style d st0 sty = Ok (st, ps) the stack is tp :: rest (tp the top
+   sub-renderer, width W = swidth_ tp).  The children are rendered BY THE SAME FUNCTION from the
+   state  mkrst [new_sub_renderer tp w] (links st)  -- one fresh sub-renderer, alone on the
+   stack, with tp's options and annotation stack, and the links collected so far -- where
+   width_minus tp p mn = Ok w, p = the display width of the prefix (`nested`; by
+   `width_minus_spec`, w = max (W - p) mn, and w = W - p <= W when overflow is not allowed).
+   That run ends in  mkrst [sub] lk'  with sub_into_lines sub = Ok ols.  Then
+     - block quote (p = swidth "> "), heading (p = swidth "## "):  start_block tp = Ok s4
+       (tp's pending wrapped text flushed and, iff some line of tp has content, ONE empty line
+       added: `start_block_spec`), then s5 = s4 + the lines of sub each with the prefix in front:
+         out_lines (end_block s5) = Ok (strs (slines s4) ++ map (app prefix) (strs ols))
+       end_block only sets the at_block_end flag (so that the next inline text starts a block);
+       the final state is  unwind d ps (mkrst (end_block s5 :: rest) lk').
+       The blank line before the block comes from start_block and is outside the equation.
+     - dd (p = 2): no start_block / end_block:
+         out_lines s5 = do l <- out_lines tp; Ok (l ++ map (app "  ") (strs ols))
+       (out_lines tp = tp's lines with its pending wrapped text flushed).
+     - ul: every item in its own fresh sub-renderer made from tp (`items_rendered`, links threaded
+       from item to item), Ls = the lines of the items:
+         out_lines s' = do l <- out_lines tp; Ok (l ++ flat_map (fun ols => prefixed bullet indent (strs ols)) Ls)
+       prefixed first rest [l1; l2; ...] = [first ++ l1; rest ++ l2; ...], indent = swidth bullet
+       spaces.  No blank line is added around the list or between items by the list itself.
+     - ol: the same with p = pw, ol_prefix_size d start (length items) = Ok pw, item k (0-based)
+       has first prefix ol_marker pw (ol_num start k) = pad_width (d_ol_prefix d (ol_num start k)) pw
+       and rest = pw spaces; ol_num start k = start + k as long as that is an i64
+       (`ol_num_consecutive`), and every marker has display width exactly pw
+       (`ol_marker_width`, for decorators satisfying RenderWidth.ol_prefix_monotone/_sat, e.g.
+       the three built-in ones, and start >= i64_min, which Dom.parse_i64 guarantees).
+   Side condition of the LINE equations: `clean_top st0` (there is a top sub-renderer and its
+   pending fragment markers carry no text).  It holds in the initial state and in every fresh
+   sub-renderer and is preserved by render_node (`clean_top_preserved`, section 6), so it
+   holds at every call of render_node made during render_tree.  For quote / heading / dd the
+   structural part (what is rendered where) needs no hypothesis; the two list theorems assume
+   clean_top st0 throughout.
+   Stacking: the `nested` run is again a run of render_node/rkids from a clean state, so the
+   equations compose; `c07_quote_in_quote` works this out (every line gets q ++ q ++ line).
+
+   PART B -- C15, first clause (section 5).
+     c15_maxwrap_noop_render :
+       wrap_width o1 = None -> wrap_width o2 = Some m -> same_but_wrap o1 o2 ->
+       o_allow_overflow o1 = false -> width <= m ->
+       res_rel (fun s1 s2 => s2 = reopt s1 o2 /\ sub_into_lines s2 = sub_into_lines s1)
+               (render_tree d mw o1 width tree) (render_tree d mw o2 width tree)
+     (res_rel: the same outcome kind, the same Panic site; when both Ok the resulting
+     sub-renderers are equal except for the stored options, and have the same lines), and through
+     Api.v:  c15_lines_from_read, c15_string_from_read (plain equalities of the results).
+     Invariant carried: every sub-renderer on the stack has the options o1 / o2 and width <= m.
+     HYPOTHESIS o_allow_overflow o1 = false is NEEDED: with overflow allowed width_minus makes a
+     nested block max (W - p) (estimated minimum) wide, which can exceed the outer width, and the
+     maximum wrap width then bites inside it although m >= width
+     (`cexb_overflow_maxwrap_bites`, a FINDING against the first clause of C15).
+
+   Examples (non-vacuity): section 5 end (exb_applies) and section 8. *)
 From H2T Require Import Base Tagged Wrap Sub Css Dom Render Api.
 From H2T Require Import Proofs.WrapInv Proofs.Small Proofs.RenderWidth.
 From Coq Require Import Lia ZifyN ZifyBool ZifyNat.
@@ -505,3 +574,1768 @@ Section Sim.
       + apply sim_wrap; auto; [apply (so_sup_s _ _ ops)|apply (so_sup_e _ _ ops)].
   Qed.
 End Sim.
+
+(* ================================================================== *)
+(* 2. Frame property: render_node only touches the top sub-renderer     *)
+(* ================================================================== *)
+
+Lemma Forall2_eq {A} (l l' : list A) : Forall2 eq l l' -> l = l'.
+Proof. induction 1; congruence. Qed.
+
+Lemma eq_ops d : SimOps d eq.
+Proof.
+  constructor; unfold pureR, opR; intros; subst;
+    repeat match goal with H : Forall2 eq _ _ |- _ => apply Forall2_eq in H; subst end;
+    try reflexivity; try apply res_rel_refl.
+Qed.
+
+Section Frame.
+  Variables (d : deco) (mw : N).
+
+  Definition framed (body : rstate -> res rstate) : Prop :=
+    forall q1 q2 a b, StR eq q1 q2 a b -> res_rel (StR eq q1 q2) (body a) (body b).
+
+  Lemma framed_node n : framed (render_node d mw n).
+  Proof. intros q1 q2 a b. apply (node_sim_all d mw eq (eq_ops d) n). Qed.
+
+  Lemma framed_kids cs : framed (rkids d mw cs).
+  Proof.
+    intros q1 q2 a b. apply (sim_kids d mw eq). apply Forall_forall. intros n _.
+    apply (node_sim_all d mw eq (eq_ops d) n).
+  Qed.
+
+  (* running on a stack s :: rest leaves rest alone, and the run does not depend on it *)
+  Lemma frame body (Hb : framed body) s rest lk st' :
+    body (mkrst (s :: rest) lk) = Ok st' ->
+    exists s' lk', st' = mkrst (s' :: rest) lk' /\
+      forall rest2, body (mkrst (s :: rest2) lk) = Ok (mkrst (s' :: rest2) lk').
+  Proof.
+    intros H.
+    assert (G : forall rest2, exists s', stack st' = s' :: rest /\
+                  body (mkrst (s :: rest2) lk) = Ok (mkrst (s' :: rest2) (links st'))).
+    { intros rest2.
+      assert (HS : StR eq rest rest2 (mkrst (s :: rest) lk) (mkrst (s :: rest2) lk)).
+      { split; [reflexivity|]. exists s, s. auto. }
+      destruct (res_rel_ok_l _ _ _ _ (Hb _ _ _ _ HS) H) as (b' & Eb & Hl & s1 & s2 & E1 & E2 & <-).
+      exists s1. split; [exact E1|]. rewrite Eb. destruct b' as [stk lks]. cbn [stack links] in *.
+      congruence. }
+    destruct (G rest) as (s' & Es & _). exists s', (links st'). split.
+    - destruct st' as [stk lks]. cbn [stack links] in *. congruence.
+    - intros rest2. destruct (G rest2) as (s'' & Es' & E). rewrite Es in Es'. congruence.
+  Qed.
+End Frame.
+
+(* ================================================================== *)
+(* 3. C07: strings of prefixed lines                                    *)
+(* ================================================================== *)
+From H2T Require Proofs.TableProof.
+
+Definition strs (ls : list rline) : list text := map rline_string ls.
+
+(* the prefix strings put in front of the line strings: first on the first line, rest on
+   every later line *)
+Definition prefixed (first rest : text) (ls : list text) : list text :=
+  match ls with
+  | [] => []
+  | l :: ls' => (first ++ l) :: map (app rest) ls'
+  end.
+
+Lemma prefixed_same p ls : prefixed p p ls = map (app p) ls.
+Proof. destruct ls; reflexivity. Qed.
+
+Lemma attach_prefix_string t p l : rline_string (attach_prefix t p l) = p ++ rline_string l.
+Proof.
+  destruct l as [tl|b bt].
+  - apply attach_prefix_text. right. exact I.
+  - cbn [attach_prefix rline_string]. rewrite !TableProof.tl_string_push. reflexivity.
+Qed.
+
+Lemma attach_prefixes_strs t first rest ls :
+  strs (attach_prefixes t first rest ls) = prefixed first rest (strs ls).
+Proof.
+  destruct ls as [|l ls]; [reflexivity|]. unfold strs. cbn [attach_prefixes map prefixed].
+  rewrite attach_prefix_string, !map_map. f_equal. apply map_ext. intros l'.
+  apply attach_prefix_string.
+Qed.
+
+(* text of the pending fragment markers (they are Frag elements, so it is empty: see
+   section 6, `clean_top` is an invariant of the renderer) *)
+Definition ptxt (s : subr) : text := flat_map elem_text (pending_frags s).
+
+Lemma no_content_text v : existsb elem_has_content v = false -> flat_map elem_text v = [].
+Proof.
+  induction v as [|e v IH]; [reflexivity|]. cbn [existsb flat_map]. intros H.
+  apply orb_false_iff in H. destruct H as [He Hv]. destruct e; [discriminate|].
+  cbn [elem_text app]. auto.
+Qed.
+
+Lemma string_fold_push v : forall l, tl_string (fold_left tl_push v l) = tl_string l ++ flat_map elem_text v.
+Proof.
+  induction v as [|e v IH]; intros l; cbn [fold_left flat_map]; [rewrite app_nil_r; reflexivity|].
+  rewrite IH, TableProof.tl_string_push, <- app_assoc. reflexivity.
+Qed.
+
+(* fields that add_line / extend_lines / flush_wrapping do not change *)
+Definition same_ctx (s s' : subr) : Prop :=
+  swidth_ s' = swidth_ s /\ sopts s' = sopts s /\ ann_stack s' = ann_stack s /\
+  at_block_end s' = at_block_end s /\ filter_depth s' = filter_depth s /\
+  pre_depth s' = pre_depth s /\ ws_stack s' = ws_stack s.
+
+Lemma same_ctx_refl s : same_ctx s s.
+Proof. unfold same_ctx. auto 10. Qed.
+Lemma same_ctx_trans a b c : same_ctx a b -> same_ctx b c -> same_ctx a c.
+Proof. unfold same_ctx. intuition congruence. Qed.
+
+Lemma add_line_spec s l :
+  ptxt s = [] ->
+  strs (slines (add_line s l)) = strs (slines s) ++ [rline_string l] /\
+  ptxt (add_line s l) = [] /\ wrapping (add_line s l) = wrapping s /\ same_ctx s (add_line s l).
+Proof.
+  intros Hp. unfold add_line, ptxt, strs in *.
+  destruct (pending_frags s) as [|e pf] eqn:E; destruct l as [tl|b t]; sprj;
+    rewrite ?map_app; cbn [map]; repeat split; auto; try (rewrite E; exact Hp).
+  cbn [rline_string]. rewrite !string_fold_push, Hp. reflexivity.
+Qed.
+
+Lemma extend_lines_spec ls : forall s,
+  ptxt s = [] ->
+  strs (slines (extend_lines s ls)) = strs (slines s) ++ strs ls /\
+  ptxt (extend_lines s ls) = [] /\ wrapping (extend_lines s ls) = wrapping s /\
+  same_ctx s (extend_lines s ls).
+Proof.
+  unfold extend_lines. induction ls as [|l ls IH]; intros s Hp; cbn [fold_left].
+  - unfold strs. cbn [map]. rewrite app_nil_r. split; [reflexivity|]. split; [exact Hp|].
+    split; [reflexivity|apply same_ctx_refl].
+  - destruct (add_line_spec s l Hp) as (A & B & C & D).
+    destruct (IH (add_line s l) B) as (A' & B' & C' & D').
+    split; [|split; [exact B'|split; [congruence|eapply same_ctx_trans; eassumption]]].
+    rewrite A', A. unfold strs. cbn [map]. rewrite <- app_assoc. reflexivity.
+Qed.
+
+Lemma flush_wrapping_spec s s1 :
+  flush_wrapping s = Ok s1 -> ptxt s = [] ->
+  wrapping s1 = None /\ ptxt s1 = [] /\ same_ctx s s1 /\ (wrapping s = None -> s1 = s) /\
+  exists new, strs (slines s1) = strs (slines s) ++ new.
+Proof.
+  unfold flush_wrapping. destruct (wrapping s) as [w|] eqn:Ew.
+  - destruct (take_trailing_fragments w) as [w1 frags] eqn:Et. intros H Hp.
+    bind_inv H ls Hls. ok_inv H.
+    assert (Hfr : flat_map elem_text frags = []).
+    { unfold take_trailing_fragments in Et. destruct (word_is_empty (wword w)) eqn:Ewe.
+      - injection Et as _ <-. apply no_content_text. unfold word_is_empty in Ewe.
+        destruct (existsb elem_has_content (wword w)); [discriminate|reflexivity].
+      - injection Et as _ <-. reflexivity. }
+    destruct (extend_lines_spec (map RText ls) (set_wrapping s None) Hp) as (A & B & C & D).
+    sprj. split; [exact C|]. split.
+    { unfold ptxt in *. sprj. rewrite flat_map_app, Hfr, B. reflexivity. }
+    split; [exact D|]. split; [discriminate|]. eexists. exact A.
+  - intros H Hp. ok_inv H. split; [exact Ew|]. split; [exact Hp|]. split; [apply same_ctx_refl|].
+    split; [auto|]. exists []. rewrite app_nil_r. reflexivity.
+Qed.
+
+(* the line strings a sub-renderer would give (its pending wrapped text flushed) *)
+Definition out_lines (s : subr) : res (list text) := do ls <- sub_into_lines s; Ok (strs ls).
+
+Lemma out_lines_flush s s1 : flush_wrapping s = Ok s1 -> out_lines s = Ok (strs (slines s1)).
+Proof. intros H. unfold out_lines, sub_into_lines. rewrite H. reflexivity. Qed.
+
+Lemma flush_none s : wrapping s = None -> flush_wrapping s = Ok s.
+Proof. intros H. unfold flush_wrapping. rewrite H. reflexivity. Qed.
+
+Lemma out_lines_none s : wrapping s = None -> out_lines s = Ok (strs (slines s)).
+Proof. intros H. apply out_lines_flush, flush_none, H. Qed.
+
+Lemma out_lines_end_block s : out_lines (end_block s) = out_lines s.
+Proof.
+  unfold out_lines, sub_into_lines, flush_wrapping, end_block. sprj.
+  destruct (wrapping s) as [w|]; [|reflexivity].
+  destruct (take_trailing_fragments w) as [w1 frags].
+  destruct (wb_into_lines w1) as [ls| | |]; cbn [bind]; try reflexivity.
+  f_equal. f_equal. sprj.
+  assert (G : forall l a b, slines a = slines b -> pending_frags a = pending_frags b ->
+                slines (extend_lines a l) = slines (extend_lines b l)).
+  { clear. unfold extend_lines. induction l as [|x l IH]; intros a b H1 H2; cbn [fold_left]; [exact H1|].
+    apply IH; unfold add_line; rewrite H1, H2; destruct (pending_frags b), x; reflexivity. }
+  apply G; reflexivity.
+Qed.
+
+Lemma out_lines_app3 (x : res (list text)) a b :
+  (do l <- (do l <- x; Ok (l ++ a)); Ok (l ++ b)) = (do l <- x; Ok (l ++ a ++ b)).
+Proof. destruct x; cbn [bind]; try reflexivity. rewrite app_assoc. reflexivity. Qed.
+
+(* append_subrender: the lines of `other`, prefixed, come after the (flushed) lines of s *)
+Lemma append_subrender_spec s other first rest s' :
+  append_subrender s other first rest = Ok s' -> ptxt s = [] ->
+  exists ols, sub_into_lines other = Ok ols /\
+    out_lines s' = (do l <- out_lines s; Ok (l ++ prefixed first rest (strs ols))) /\
+    wrapping s' = None /\ ptxt s' = [] /\ same_ctx s s'.
+Proof.
+  intros H Hp. unfold append_subrender in H. bind_inv H s1 H1. bind_inv H ols H2. ok_inv H.
+  destruct (flush_wrapping_spec _ _ H1 Hp) as (A & B & C & _ & _).
+  destruct (extend_lines_spec (attach_prefixes (ann_stack s1) first rest ols) s1 B) as (E & F & G & I).
+  exists ols. split; [exact H2|]. rewrite A in G.
+  rewrite (out_lines_flush _ _ H1). cbn [bind].
+  rewrite (out_lines_none _ G), E, attach_prefixes_strs.
+  split; [reflexivity|]. split; [exact G|]. split; [exact F|].
+  eapply same_ctx_trans; eassumption.
+Qed.
+
+Lemma start_block_spec s s4 :
+  start_block s = Ok s4 -> ptxt s = [] ->
+  wrapping s4 = None /\ ptxt s4 = [] /\
+  swidth_ s4 = swidth_ s /\ sopts s4 = sopts s /\ ann_stack s4 = ann_stack s /\
+  exists s1, flush_wrapping s = Ok s1 /\
+    strs (slines s4) = strs (slines s1) ++
+                       (if existsb rline_has_content (slines s1) then [[]] else []).
+Proof.
+  intros H Hp. unfold start_block in H. bind_inv H s1 H1. bind_inv H s2 H2. ok_inv H.
+  destruct (flush_wrapping_spec _ _ H1 Hp) as (A & B & (c1 & c2 & c3 & _) & _ & _).
+  destruct (existsb rline_has_content (slines s1)) eqn:Ex.
+  - unfold add_empty_line in H2. rewrite (flush_none _ A) in H2. cbn [bind] in H2. ok_inv H2.
+    destruct (add_line_spec s1 (RText tl_new) B) as (E & F & G & (d1 & d2 & d3 & _)).
+    sprj. split; [congruence|]. split; [exact F|]. repeat split; try congruence.
+    exists s1. split; [exact H1|]. rewrite E, Ex. reflexivity.
+  - injection H2 as <-. sprj. repeat split; auto. exists s1. split; [exact H1|]. rewrite Ex.
+    rewrite app_nil_r. reflexivity.
+Qed.
+
+(* ================================================================== *)
+(* 4. C07: the compositional equation of the prefixing node kinds       *)
+(* ================================================================== *)
+
+(* [nested body tp lk p mn sub lk' ols]: `body` run in a FRESH sub-renderer made from tp, p
+   columns narrower (new_sub_renderer tp w, w = width_minus tp p mn, alone on the stack), with
+   the links lk collected so far, ends with sub-renderer sub (whose lines are ols) and links lk' *)
+Definition nested (body : rstate -> res rstate) (tp : subr) (lk : list text) (p mn : N)
+           (sub : subr) (lk' : list text) (ols : list rline) : Prop :=
+  exists w, width_minus tp p mn = Ok w /\
+            body (mkrst [new_sub_renderer tp w] lk) = Ok (mkrst [sub] lk') /\
+            sub_into_lines sub = Ok ols.
+
+(* what w is *)
+Lemma width_minus_spec tp p mn w :
+  width_minus tp p mn = Ok w ->
+  w = N.max (swidth_ tp - p) mn /\
+  (o_allow_overflow (sopts tp) = false -> w = swidth_ tp - p /\ p <= swidth_ tp /\ mn <= w).
+Proof.
+  unfold width_minus. intros H.
+  destruct (((swidth_ tp - p <? mn) || (swidth_ tp <? p)) && negb (o_allow_overflow (sopts tp))) eqn:E;
+    [discriminate|]. ok_inv H. split; [reflexivity|]. intros Ho. rewrite Ho in E. cbn [negb] in E.
+  rewrite andb_true_r in E. apply orb_false_iff in E. lia.
+Qed.
+
+Lemma nested_ctx body tp tp' lk p mn sub lk' ols :
+  same_ctx tp tp' -> nested body tp' lk p mn sub lk' ols -> nested body tp lk p mn sub lk' ols.
+Proof.
+  intros (c1 & c2 & c3 & _) (w & A & B & C). exists w.
+  unfold width_minus, new_sub_renderer in *. rewrite c1, c2, c3 in *. auto.
+Qed.
+
+Lemma scope_inv body (Hb : framed body) st tp rest p mn {C} (k : subr * rstate -> res C) r :
+  stack st = tp :: rest ->
+  (do tp <- top st; do w <- width_minus tp p mn;
+   do st2 <- body (push_sub st (new_sub_renderer tp w)); do pp <- pop_sub st2; k pp) = Ok r ->
+  exists w sub lk', width_minus tp p mn = Ok w /\
+    body (mkrst [new_sub_renderer tp w] (links st)) = Ok (mkrst [sub] lk') /\
+    k (sub, mkrst (tp :: rest) lk') = Ok r.
+Proof.
+  intros Es H. unfold top in H. rewrite Es in H. cbn [bind] in H.
+  bind_inv H w Hw. bind_inv H st2 H2. bind_inv H pp Hpp.
+  unfold push_sub in H2. rewrite Es in H2.
+  destruct (frame body Hb _ _ _ _ H2) as (sub & lk' & -> & Hfr).
+  unfold pop_sub in Hpp. cbn [stack links] in Hpp. ok_inv Hpp.
+  exists w, sub, lk'. split; [exact Hw|]. split; [apply Hfr|exact H].
+Qed.
+
+Lemma with_top_at st s rest f st' :
+  stack st = s :: rest -> with_top st f = Ok st' ->
+  exists s', f s = Ok s' /\ st' = mkrst (s' :: rest) (links st).
+Proof.
+  intros Es H. unfold with_top in H. rewrite Es in H. bind_inv H s' Hs. ok_inv H. eauto.
+Qed.
+
+Lemma with_top_mk s rest lk f st' :
+  with_top (mkrst (s :: rest) lk) f = Ok st' ->
+  exists s', f s = Ok s' /\ st' = mkrst (s' :: rest) lk.
+Proof. apply with_top_at. reflexivity. Qed.
+
+(* there is a top sub-renderer and it has no pending fragment text (an invariant, section 6) *)
+Definition clean_top (st : rstate) : Prop :=
+  match stack st with s :: _ => ptxt s = [] | [] => False end.
+
+Lemma with_top'_pf st g st' :
+  (forall s, pending_frags (g s) = pending_frags s) -> clean_top st ->
+  with_top' st g = Ok st' -> clean_top st'.
+Proof.
+  intros Hg Hc H. unfold with_top', with_top in H. unfold clean_top in *.
+  destruct (stack st) as [|s rest]; [discriminate|]. cbn [bind] in H. ok_inv H. cbn [stack].
+  unfold ptxt in *. rewrite Hg. exact Hc.
+Qed.
+
+Lemma apply_style_clean d st cs st' p :
+  apply_style d st cs = Ok (st', p) -> clean_top st -> clean_top st'.
+Proof.
+  intros H Hc. unfold apply_style in H.
+  bind_inv H st1 H1. bind_inv H st2 H2. bind_inv H st3 H3. bind_inv H st4 H4. injection H as <- _.
+  assert (C1 : clean_top st1).
+  { destruct (ws_val (c_colour (cs_core cs))) as [[[r g] b]|]; [|ok_inv H1; exact Hc].
+    eapply with_top'_pf; [|exact Hc|exact H1]. intros s. unfold push_colour, push_ann.
+    destruct (d_colours d); reflexivity. }
+  assert (C2 : clean_top st2).
+  { destruct (ws_val (c_bg (cs_core cs))) as [[[r g] b]|]; [|ok_inv H2; exact C1].
+    eapply with_top'_pf; [|exact C1|exact H2]. intros s. unfold push_bgcolour, push_ann.
+    destruct (d_colours d); reflexivity. }
+  assert (C3 : clean_top st3).
+  { destruct (match ws_val (c_white_space (cs_core cs)) with
+              | Some WsPre => Some WsPre
+              | Some WsPreWrap => Some WsPreWrap
+              | _ => None
+              end) as [m|]; [|ok_inv H3; exact C2].
+    eapply with_top'_pf; [|exact C2|exact H3]. reflexivity. }
+  destruct (cs_internal_pre cs); [|ok_inv H4; exact C3].
+  eapply with_top'_pf; [|exact C3|exact H4]. reflexivity.
+Qed.
+
+Section PartA.
+  Variables (d : deco) (mw : N).
+
+  (* ---- block quote, heading: start_block; prefixed lines; end_block ---- *)
+  (* the common tail of IBlockQuote and IHeader *)
+  Lemma block_tail tp rest lk' sub prefix ps st' :
+    (do st4 <- with_top (mkrst (tp :: rest) lk') start_block;
+     do st5 <- with_top st4 (fun s => append_subrender s sub prefix prefix);
+     do st6 <- with_top' st5 end_block; unwind d ps st6) = Ok st' ->
+    exists s4 s5,
+      start_block tp = Ok s4 /\ append_subrender s4 sub prefix prefix = Ok s5 /\
+      unwind d ps (mkrst (end_block s5 :: rest) lk') = Ok st'.
+  Proof.
+    intros H. bind_inv H st4 H4. bind_inv H st5 H5. bind_inv H st6 H6.
+    destruct (with_top_mk _ _ _ _ _ H4) as (s4 & E4 & ->).
+    destruct (with_top_mk _ _ _ _ _ H5) as (s5 & E5 & ->).
+    unfold with_top' in H6. destruct (with_top_mk _ _ _ _ _ H6) as (s6 & E6 & ->).
+    ok_inv E6. cbn [links] in *. eauto.
+  Qed.
+
+  (* [block_eq tp sub prefix s4 s5]: the top sub-renderer tp gets start_block (giving s4: its
+     wrapped text flushed and, if it has a line with content, one empty line), then every line
+     of sub with `prefix` in front (giving s5); end_block then only sets a flag. *)
+  Definition block_eq (tp sub : subr) (prefix : text) (s4 s5 : subr) : Prop :=
+    start_block tp = Ok s4 /\ append_subrender s4 sub prefix prefix = Ok s5.
+
+  Lemma block_eq_lines tp sub prefix s4 s5 ols :
+    block_eq tp sub prefix s4 s5 -> ptxt tp = [] -> sub_into_lines sub = Ok ols ->
+    out_lines s4 = Ok (strs (slines s4)) /\
+    out_lines (end_block s5) = Ok (strs (slines s4) ++ map (app prefix) (strs ols)) /\
+    ptxt (end_block s5) = [].
+  Proof.
+    intros [H4 H5] Hp Hols.
+    destruct (start_block_spec _ _ H4 Hp) as (A & B & _).
+    destruct (append_subrender_spec _ _ _ _ _ H5 B) as (ols' & E1 & E2 & E3 & E4 & _).
+    assert (ols' = ols) by congruence. subst ols'.
+    rewrite out_lines_end_block, E2, (out_lines_none _ A). cbn [bind]. rewrite prefixed_same.
+    auto.
+  Qed.
+
+  Theorem c07_blockquote cs sty st0 st' :
+    render_node d mw (RN (IBlockQuote cs) sty) st0 = Ok st' ->
+    let q := d_quote_prefix d in
+    exists st ps tp rest mn sub lk' ols s4 s5,
+      apply_style d st0 sty = Ok (st, ps) /\ stack st = tp :: rest /\
+      nested (rkids d mw cs) tp (links st) (swidth q) mn sub lk' ols /\
+      block_eq tp sub q s4 s5 /\
+      unwind d ps (mkrst (end_block s5 :: rest) lk') = Ok st' /\
+      (clean_top st0 ->
+       out_lines (end_block s5) = Ok (strs (slines s4) ++ map (app q) (strs ols))).
+  Proof.
+    intros H q. cbn [render_node rn_info rn_style] in H.
+    bind_inv H sz Hsz. bind_inv H ap Hap. destruct ap as [st ps].
+    destruct (negb (e_prefix sz =? swidth (d_quote_prefix d))); [discriminate|].
+    bind_inv H iw Hiw.
+    destruct (stack st) as [|tp rest] eqn:Es; [unfold top in H; rewrite Es in H; discriminate|].
+    destruct (scope_inv (rkids d mw cs) (framed_kids d mw cs) st tp rest _ _ _ _ Es H)
+      as (w & sub & lk' & Hw & Hbody & Hk).
+    destruct (block_tail _ _ _ _ _ _ _ Hk) as (s4 & s5 & E4 & E5 & Hfin).
+    assert (Hols : exists ols, sub_into_lines sub = Ok ols).
+    { unfold append_subrender in E5. bind_inv E5 x Hx. bind_inv E5 ols Ho. eauto. }
+    destruct Hols as [ols Hols].
+    exists st, ps, tp, rest, iw, sub, lk', ols, s4, s5.
+    split; [exact Hap|]. split; [exact Es|]. split; [exists w; auto|].
+    split; [split; assumption|]. split; [exact Hfin|].
+    intros Hc. pose proof (apply_style_clean _ _ _ _ _ Hap Hc) as Hc'.
+    unfold clean_top in Hc'. rewrite Es in Hc'.
+    apply (block_eq_lines tp sub q s4 s5 ols); [split; assumption|exact Hc'|exact Hols].
+  Qed.
+
+  Theorem c07_header level cs sty st0 st' :
+    render_node d mw (RN (IHeader level cs) sty) st0 = Ok st' ->
+    let h := d_header_prefix d level in
+    exists st ps tp rest mn sub lk' ols s4 s5,
+      apply_style d st0 sty = Ok (st, ps) /\ stack st = tp :: rest /\
+      nested (rkids d mw cs) tp (links st) (swidth h) mn sub lk' ols /\
+      block_eq tp sub h s4 s5 /\
+      unwind d ps (mkrst (end_block s5 :: rest) lk') = Ok st' /\
+      (clean_top st0 ->
+       out_lines (end_block s5) = Ok (strs (slines s4) ++ map (app h) (strs ols))).
+  Proof.
+    intros H h. cbn [render_node rn_info rn_style] in H.
+    bind_inv H sz Hsz. bind_inv H ap Hap. destruct ap as [st ps].
+    destruct (N.eqb_spec (swidth (d_header_prefix d level)) (e_prefix sz)) as [Ep|];
+      cbn [negb] in H; [|discriminate]. rewrite <- Ep in H.
+    destruct (stack st) as [|tp rest] eqn:Es; [unfold top in H; rewrite Es in H; discriminate|].
+    destruct (scope_inv (rkids d mw cs) (framed_kids d mw cs) st tp rest _ _ _ _ Es H)
+      as (w & sub & lk' & Hw & Hbody & Hk).
+    destruct (block_tail _ _ _ _ _ _ _ Hk) as (s4 & s5 & E4 & E5 & Hfin).
+    assert (Hols : exists ols, sub_into_lines sub = Ok ols).
+    { unfold append_subrender in E5. bind_inv E5 x Hx. bind_inv E5 ols Ho. eauto. }
+    destruct Hols as [ols Hols].
+    exists st, ps, tp, rest, (e_min sz - swidth (d_header_prefix d level)), sub, lk', ols, s4, s5.
+    split; [exact Hap|]. split; [exact Es|]. split; [exists w; auto|].
+    split; [split; assumption|]. split; [exact Hfin|].
+    intros Hc. pose proof (apply_style_clean _ _ _ _ _ Hap Hc) as Hc'.
+    unfold clean_top in Hc'. rewrite Es in Hc'.
+    apply (block_eq_lines tp sub h s4 s5 ols); [split; assumption|exact Hc'|exact Hols].
+  Qed.
+
+  (* ---- dd: no start_block / end_block; the prefix is two spaces ---- *)
+  Theorem c07_dd cs sty st0 st' :
+    render_node d mw (RN (IDd cs) sty) st0 = Ok st' ->
+    let p2 := ptext [32; 32] in
+    exists st ps tp rest mn sub lk' ols s5,
+      apply_style d st0 sty = Ok (st, ps) /\ stack st = tp :: rest /\
+      nested (rkids d mw cs) tp (links st) 2 mn sub lk' ols /\
+      append_subrender tp sub p2 p2 = Ok s5 /\
+      unwind d ps (mkrst (s5 :: rest) lk') = Ok st' /\
+      (clean_top st0 ->
+       out_lines s5 = (do l <- out_lines tp; Ok (l ++ map (app p2) (strs ols)))).
+  Proof.
+    intros H p2. cbn [render_node rn_info rn_style] in H.
+    bind_inv H sz Hsz. bind_inv H ap Hap. destruct ap as [st ps].
+    bind_inv H iw Hiw.
+    destruct (stack st) as [|tp rest] eqn:Es; [unfold top in H; rewrite Es in H; discriminate|].
+    destruct (scope_inv (rkids d mw cs) (framed_kids d mw cs) st tp rest _ _ _ _ Es H)
+      as (w & sub & lk' & Hw & Hbody & Hk).
+    bind_inv Hk st4 H4. destruct (with_top_mk _ _ _ _ _ H4) as (s5 & E5 & ->).
+    assert (Hols : exists ols, sub_into_lines sub = Ok ols).
+    { unfold append_subrender in E5. bind_inv E5 x Hx. bind_inv E5 ols Ho. eauto. }
+    destruct Hols as [ols Hols].
+    exists st, ps, tp, rest, iw, sub, lk', ols, s5.
+    split; [exact Hap|]. split; [exact Es|]. split; [exists w; auto|].
+    split; [exact E5|]. split; [exact Hk|].
+    intros Hc. pose proof (apply_style_clean _ _ _ _ _ Hap Hc) as Hc'.
+    unfold clean_top in Hc'. rewrite Es in Hc'.
+    destruct (append_subrender_spec _ _ _ _ _ E5 Hc') as (ols' & E1 & E2 & _).
+    assert (ols' = ols) by congruence. subst ols'. rewrite E2, prefixed_same. reflexivity.
+  Qed.
+
+  (* ---- lists: every item in its own fresh sub-renderer, appended with its marker ---- *)
+
+  (* the items rendered one after the other, each in a fresh sub-renderer made from tp that is
+     p columns narrower; the links are threaded through; Ls = the lines of each item *)
+  Fixpoint items_rendered (items : list rnode) (tp : subr) (p : N) (lk lk' : list text)
+           (Ls : list (list rline)) {struct items} : Prop :=
+    match items, Ls with
+    | [], [] => lk' = lk
+    | it :: items', ols :: Ls' =>
+      exists mn sub lk1, nested (render_node d mw it) tp lk p mn sub lk1 ols /\
+                         items_rendered items' tp p lk1 lk' Ls'
+    | _, _ => False
+    end.
+
+  (* item number k (0-based) has marker `first (num k)` on its first line and `rest` on the
+     later ones *)
+  Fixpoint items_lines (first : Z -> text) (rest : text) (num : nat -> Z) (k : nat)
+           (Ls : list (list rline)) : list text :=
+    match Ls with
+    | [] => []
+    | ols :: Ls' => prefixed (first (num k)) rest (strs ols) ++ items_lines first rest num (S k) Ls'
+    end.
+
+  Section Items.
+    Variables (A : Type) (stf : A -> rstate) (idx : A -> Z) (stepf : rnode -> A -> res A).
+    Variables (p : N) (first : Z -> text) (rest_ : text) (nxt : Z -> Z) (num : nat -> Z).
+    Hypothesis num_S : forall k, num (S k) = nxt (num k).
+    Hypothesis step_ok : forall it a a' tp rest,
+      stepf it a = Ok a' -> stack (stf a) = tp :: rest ->
+      exists mn sub lk1 ols s1,
+        nested (render_node d mw it) tp (links (stf a)) p mn sub lk1 ols /\
+        append_subrender tp sub (first (idx a)) rest_ = Ok s1 /\
+        stf a' = mkrst (s1 :: rest) lk1 /\ idx a' = nxt (idx a).
+
+    Lemma items_fold : forall items a a' tp0 tp rest k,
+      fold_left (fun acc it => do s <- acc; stepf it s) items (Ok a) = Ok a' ->
+      stack (stf a) = tp :: rest -> same_ctx tp0 tp -> ptxt tp = [] -> idx a = num k ->
+      exists Ls s' lk',
+        stf a' = mkrst (s' :: rest) lk' /\
+        items_rendered items tp0 p (links (stf a)) lk' Ls /\
+        out_lines s' = (do l <- out_lines tp; Ok (l ++ items_lines first rest_ num k Ls)) /\
+        ptxt s' = [] /\ same_ctx tp0 s'.
+    Proof.
+      induction items as [|it items IH]; intros a a' tp0 tp rest k H Es Hctx Hp Hk.
+      - cbn [fold_left] in H. ok_inv H. exists [], tp, (links (stf a')).
+        split; [destruct (stf a') as [stk lks]; cbn [stack links] in *; congruence|].
+        split; [reflexivity|]. split; [|auto].
+        cbn [items_lines]. destruct (out_lines tp); cbn [bind]; try reflexivity.
+        rewrite app_nil_r. reflexivity.
+      - apply fold_bind_cons in H. destruct H as (a1 & Hstep & H).
+        destruct (step_ok _ _ _ _ _ Hstep Es) as (mn & sub & lk1 & ols & s1 & Hn & Happ & E1 & Ei).
+        destruct (append_subrender_spec _ _ _ _ _ Happ Hp) as (ols' & O1 & O2 & O3 & O4 & O5).
+        assert (ols' = ols) by (destruct Hn as (? & _ & _ & ?); congruence). subst ols'.
+        destruct (IH a1 a' tp0 s1 rest (S k) H) as (Ls & s' & lk' & F1 & F2 & F3 & F4 & F5).
+        { rewrite E1. reflexivity. }
+        { eapply same_ctx_trans; eassumption. }
+        { exact O4. }
+        { rewrite Ei, Hk, num_S. reflexivity. }
+        exists (ols :: Ls), s', lk'. split; [exact F1|]. split.
+        { cbn [items_rendered]. exists mn, sub, lk1. split.
+          - exact (nested_ctx _ tp0 tp _ _ _ _ _ _ Hctx Hn).
+          - rewrite E1 in F2. exact F2. }
+        split; [|auto]. rewrite F3, O2, out_lines_app3. cbn [items_lines]. rewrite Hk. reflexivity.
+    Qed.
+  End Items.
+
+  Lemma items_lines_const b r num : forall Ls k,
+    items_lines (fun _ => b) r num k Ls = flat_map (fun ols => prefixed b r (strs ols)) Ls.
+  Proof.
+    induction Ls as [|ols Ls IH]; intros k; cbn [items_lines flat_map]; [reflexivity|].
+    rewrite IH. reflexivity.
+  Qed.
+
+  Lemma items_rendered_length : forall items tp p lk lk' Ls,
+    items_rendered items tp p lk lk' Ls -> length Ls = length items.
+  Proof.
+    induction items as [|it items IH]; intros tp p lk lk' [|ols Ls] H; cbn [items_rendered] in H;
+      try contradiction; [reflexivity|].
+    destruct H as (mn & sub & lk1 & _ & H). cbn [length]. f_equal. eapply IH, H.
+  Qed.
+
+  (* ---- unordered list ---- *)
+  Theorem c07_ul items sty st0 st' :
+    render_node d mw (RN (IUl items) sty) st0 = Ok st' -> clean_top st0 ->
+    let bullet := d_ul_prefix d in
+    let indent := repeat_chr (spacel L_prefix) (N.to_nat (swidth bullet)) in
+    exists st ps tp rest s' lk' Ls,
+      apply_style d st0 sty = Ok (st, ps) /\ stack st = tp :: rest /\
+      items_rendered items tp (swidth bullet) (links st) lk' Ls /\
+      out_lines s' = (do l <- out_lines tp;
+                      Ok (l ++ flat_map (fun ols => prefixed bullet indent (strs ols)) Ls)) /\
+      unwind d ps (mkrst (s' :: rest) lk') = Ok st' /\
+      swidth indent = swidth bullet.
+  Proof.
+    intros H Hc bullet indent. cbn [render_node rn_info rn_style] in H.
+    bind_inv H sz Hsz. bind_inv H ap Hap. destruct ap as [st ps]. bind_inv H st1 Hfold.
+    pose proof (apply_style_clean _ _ _ _ _ Hap Hc) as Hc'. unfold clean_top in Hc'.
+    destruct (stack st) as [|tp rest] eqn:Es; [contradiction|].
+    destruct (items_fold rstate (fun x => x) (fun _ => 0%Z)
+                (fun item s =>
+                   do inner_width <- usub 22 (e_min sz) (swidth (d_ul_prefix d));
+                   do tp <- top s;
+                   do w <- width_minus tp (swidth (d_ul_prefix d)) inner_width;
+                   do s2 <- render_node d mw item (push_sub s (new_sub_renderer tp w));
+                   do pp <- pop_sub s2;
+                   let '(sub, s3) := pp in
+                   with_top s3 (fun t => append_subrender t sub (d_ul_prefix d)
+                      (repeat_chr (spacel L_prefix) (N.to_nat (swidth (d_ul_prefix d))))))
+                (swidth bullet) (fun _ => bullet) indent (fun i => i) (fun _ => 0%Z)
+                (fun _ => eq_refl)) with (items := items) (a := st) (a' := st1) (tp0 := tp) (tp := tp)
+                                         (rest := rest) (k := 0%nat)
+      as (Ls & s' & lk' & F1 & F2 & F3 & F4 & F5);
+      [|exact Hfold|exact Es|apply same_ctx_refl|exact Hc'|reflexivity|].
+    { intros it a a' tp1 rest1 Hstep Ea. bind_inv Hstep iw Hiw.
+      destruct (scope_inv (render_node d mw it) (framed_node d mw it) a tp1 rest1 _ _ _ _ Ea Hstep)
+        as (w & sub & lk1 & Hw & Hbody & Hk).
+      destruct (with_top_mk _ _ _ _ _ Hk) as (s1 & E1 & ->).
+      assert (Hols : exists ols, sub_into_lines sub = Ok ols).
+      { unfold append_subrender in E1. bind_inv E1 x Hx. bind_inv E1 ols Ho. eauto. }
+      destruct Hols as [ols Hols].
+      exists iw, sub, lk1, ols, s1. split; [exists w; auto|]. auto. }
+    exists st, ps, tp, rest, s', lk', Ls. subst st1.
+    split; [exact Hap|]. split; [exact Es|]. split; [exact F2|].
+    split; [rewrite F3, items_lines_const; reflexivity|]. split; [exact H|].
+    unfold indent. rewrite swidth_repeat_w1 by reflexivity. lia.
+  Qed.
+
+  (* ---- ordered list ---- *)
+  (* the number of item k (0-based): start, then +1 per item, saturating at the i64 bounds
+     exactly as the model's loop does *)
+  Fixpoint ol_num (start : Z) (k : nat) : Z :=
+    match k with O => start | S k' => isat64 (ol_num start k' + 1) end.
+
+  Lemma ol_num_consecutive start k :
+    (i64_min <= start)%Z -> (start + Z.of_nat k <= i64_max)%Z ->
+    ol_num start k = (start + Z.of_nat k)%Z.
+  Proof.
+    intros Hmin. induction k as [|k IH]; intros Hmax; cbn [ol_num]; [lia|].
+    unfold i64_min, i64_max in *. rewrite IH by lia. unfold isat64, i64_min, i64_max. lia.
+  Qed.
+
+  Lemma ol_num_idx start k : (i64_min <= start)%Z -> ol_num start k = ol_idx start k.
+  Proof.
+    intros Hmin. induction k as [|k IH]; [reflexivity|].
+    cbn [ol_num]. rewrite IH. apply ol_idx_succ, Hmin.
+  Qed.
+
+  Definition ol_marker (pw : N) (i : Z) : text := pad_width (d_ol_prefix d i) pw.
+  Definition ol_indent (pw : N) : text := pad_chars [] pw.
+
+  Lemma ol_indent_eq pw : ol_indent pw = repeat_chr (spacel L_prefix) (N.to_nat pw).
+  Proof. unfold ol_indent, pad_chars. cbn [length app]. rewrite Nat.sub_0_r. reflexivity. Qed.
+
+  Lemma ol_indent_width pw : swidth (ol_indent pw) = pw.
+  Proof. rewrite ol_indent_eq, swidth_repeat_w1 by reflexivity. lia. Qed.
+
+  (* all markers of a list have the common width pw, for decorators whose ordered prefix does
+     not get narrower between two numbers (RenderWidth.ol_prefix_monotone / _sat, proved there
+     for the built-in decorators) *)
+  Lemma ol_marker_width start n pw k :
+    ol_prefix_monotone d -> ol_prefix_sat d -> (i64_min <= start)%Z ->
+    ol_prefix_size d start n = Ok pw -> (k < n)%nat ->
+    swidth (ol_marker pw (ol_num start k)) = pw.
+  Proof.
+    intros Hd Hsat Hmin Hpw Hk. unfold ol_prefix_size in Hpw. ok_inv Hpw.
+    unfold ol_marker. rewrite swidth_pad_width, (ol_num_idx _ _ Hmin).
+    set (mn := isat64 (isat64 (start + Z.of_nat n) - 1)).
+    pose proof (Hd start (ol_idx start k) mn) as Hm. unfold ol_prefix_sat in Hsat.
+    assert (Hcases : ol_idx start k = start \/ (start <= ol_idx start k <= mn)%Z \/
+                     (ol_idx start k = i64_max /\ mn = (i64_max - 1)%Z)).
+    { unfold ol_idx, mn, isat64, i64_min, i64_max in *. destruct k; lia. }
+    destruct Hcases as [E|[E|[E1 E2]]].
+    - rewrite E. lia.
+    - specialize (Hm E). lia.
+    - rewrite E1, E2. lia.
+  Qed.
+
+  Theorem c07_ol start items sty st0 st' :
+    render_node d mw (RN (IOl start items) sty) st0 = Ok st' -> clean_top st0 ->
+    exists pw st ps tp rest s' lk' Ls,
+      ol_prefix_size d start (length items) = Ok pw /\
+      apply_style d st0 sty = Ok (st, ps) /\ stack st = tp :: rest /\
+      items_rendered items tp pw (links st) lk' Ls /\
+      out_lines s' = (do l <- out_lines tp;
+                      Ok (l ++ items_lines (ol_marker pw) (ol_indent pw) (ol_num start) 0 Ls)) /\
+      unwind d ps (mkrst (s' :: rest) lk') = Ok st'.
+  Proof.
+    intros H Hc. cbn [render_node rn_info rn_style] in H.
+    bind_inv H sz Hsz. bind_inv H ap Hap. destruct ap as [st ps]. bind_inv H r Hfold.
+    pose proof (apply_style_clean _ _ _ _ _ Hap Hc) as Hc'. unfold clean_top in Hc'.
+    destruct (stack st) as [|tp rest] eqn:Es; [contradiction|].
+    set (pw := N.max (swidth (d_ol_prefix d start))
+                     (swidth (d_ol_prefix d (isat64 (isat64 (start + Z.of_nat (length items)) - 1))))) in *.
+    assert (Hfold' : fold_left (fun acc item => do si <- acc; ol_step d mw sz pw item si) items
+                               (Ok (st, start)) = Ok r) by exact Hfold.
+    destruct (items_fold (rstate * Z) fst snd (ol_step d mw sz pw)
+                pw (ol_marker pw) (ol_indent pw) (fun i => isat64 (i + 1)) (ol_num start)
+                (fun _ => eq_refl)) with (items := items) (a := (st, start)) (a' := r) (tp0 := tp)
+                                         (tp := tp) (rest := rest) (k := 0%nat)
+      as (Ls & s' & lk' & F1 & F2 & F3 & F4 & F5);
+      [|exact Hfold'|exact Es|apply same_ctx_refl|exact Hc'|reflexivity|].
+    { intros it [a ia] a' tp1 rest1 Hstep Ea. cbn [fst snd] in *. unfold ol_step in Hstep.
+      bind_inv Hstep iw Hiw.
+      destruct (scope_inv (render_node d mw it) (framed_node d mw it) a tp1 rest1 _ _ _ _ Ea Hstep)
+        as (w & sub & lk1 & Hw & Hbody & Hk).
+      bind_inv Hk s4 H4. ok_inv Hk.
+      destruct (with_top_mk _ _ _ _ _ H4) as (s1 & E1 & ->).
+      assert (Hols : exists ols, sub_into_lines sub = Ok ols).
+      { unfold append_subrender in E1. bind_inv E1 x Hx. bind_inv E1 ols Ho. eauto. }
+      destruct Hols as [ols Hols].
+      exists iw, sub, lk1, ols, s1. cbn [fst snd]. split; [exists w; auto|]. auto. }
+    exists pw, st, ps, tp, rest, s', lk', Ls. cbn [fst snd] in *.
+    split; [reflexivity|]. split; [exact Hap|]. split; [exact Es|]. split; [exact F2|].
+    split; [exact F3|]. rewrite F1 in H. exact H.
+  Qed.
+End PartA.
+
+(* ================================================================== *)
+(* 5. C15: a maximum wrap width >= the width changes nothing            *)
+(* ================================================================== *)
+
+(* the same sub-renderer with other options *)
+Definition reopt (s : subr) (o : ropts) : subr :=
+  mksub (swidth_ s) o (slines s) (pending_frags s) (at_block_end s) (wrapping s) (ann_stack s)
+        (filter_depth s) (pre_depth s) (ws_stack s).
+
+Definition with_max_wrap (o : ropts) (m : N) : ropts :=
+  mkopts (Some m) (o_allow_overflow o) (o_pad o) (o_raw o) (o_borders o) (o_wrap_links o)
+         (o_footnotes o) (o_strike o).
+
+Ltac rprj :=
+  cbn [reopt with_max_wrap swidth_ sopts slines pending_frags at_block_end wrapping ann_stack
+       filter_depth pre_depth ws_stack set_lines set_abe set_wrapping set_ann set_filter
+       set_pre_depth set_ws_stack wrap_width o_allow_overflow o_pad o_raw o_borders o_wrap_links
+       o_footnotes o_strike] in *.
+
+Lemma add_line_reopt s o l : add_line (reopt s o) l = reopt (add_line s l) o.
+Proof. unfold add_line. rprj. destruct (pending_frags s), l; reflexivity. Qed.
+
+Lemma extend_lines_reopt o ls : forall s, extend_lines (reopt s o) ls = reopt (extend_lines s ls) o.
+Proof.
+  unfold extend_lines. induction ls as [|l ls IH]; intros s; cbn [fold_left]; [reflexivity|].
+  rewrite add_line_reopt. apply IH.
+Qed.
+
+Lemma extend_lines_same ls : forall s,
+  swidth_ (extend_lines s ls) = swidth_ s /\ sopts (extend_lines s ls) = sopts s.
+Proof.
+  unfold extend_lines. induction ls as [|l ls IH]; intros s; cbn [fold_left]; [auto|].
+  destruct (IH (add_line s l)) as [A B]. destruct (add_line_same s l) as (a & b & _).
+  split; congruence.
+Qed.
+
+Section PartB.
+  Variables (d : deco) (o1 : ropts) (m : N).
+  Hypothesis Hww : wrap_width o1 = None.
+  Hypothesis Hov : o_allow_overflow o1 = false.
+  Let o2 := with_max_wrap o1 m.
+
+  Definition good (s : subr) : Prop := sopts s = o1 /\ swidth_ s <= m.
+  (* run 1 has options o1, run 2 has o2 = o1 + max wrap width m; nothing else differs, and
+     no sub-renderer is wider than m *)
+  Definition R2 (a b : subr) : Prop := good a /\ b = reopt a o2.
+
+  Lemma good_same s s' : swidth_ s' = swidth_ s -> sopts s' = sopts s -> good s -> good s'.
+  Proof. unfold good. intros -> ->. auto. Qed.
+
+  (* a field setter *)
+  Lemma R2_pure g :
+    (forall s o, g (reopt s o) = reopt (g s) o) ->
+    (forall s, swidth_ (g s) = swidth_ s /\ sopts (g s) = sopts s) -> pureR R2 g.
+  Proof.
+    intros H1 H2 x y [Hg ->]. split; [|apply H1].
+    destruct (H2 x). eapply good_same; eassumption.
+  Qed.
+
+  Lemma R2_pure_op g : pureR R2 g -> opR R2 (fun s => Ok (g s)).
+  Proof. intros H x y Hxy. cbn [res_rel]. apply H, Hxy. Qed.
+
+  Lemma R2_bind f g : opR R2 f -> opR R2 g -> opR R2 (fun s => do x <- f s; g x).
+  Proof. intros Hf Hg x y Hxy. eapply res_rel_bind; [apply Hf, Hxy|]. intros. apply Hg. assumption. Qed.
+
+  Lemma R2_flush : opR R2 flush_wrapping.
+  Proof.
+    intros x y [Hg ->]. unfold flush_wrapping. rprj. destruct (wrapping x) as [w|].
+    - destruct (take_trailing_fragments w) as [w1 frags].
+      destruct (wb_into_lines w1) as [ls| | |]; cbn [bind res_rel]; auto.
+      change (set_wrapping (reopt x o2) None) with (reopt (set_wrapping x None) o2).
+      rewrite extend_lines_reopt. rprj. split; [|reflexivity].
+      destruct (extend_lines_same (map RText ls) (set_wrapping x None)) as [A B].
+      eapply good_same; [| |exact Hg]; rprj; assumption.
+    - cbn [res_rel]. split; [exact Hg|reflexivity].
+  Qed.
+
+  Lemma R2_add_line l : pureR R2 (fun s => add_line s l).
+  Proof.
+    apply R2_pure; [intros; apply add_line_reopt|].
+    intros s. destruct (add_line_same s l) as (a & b & _). auto.
+  Qed.
+
+  Lemma R2_set_abe b : pureR R2 (fun s => set_abe s b).
+  Proof. apply R2_pure; intros; [reflexivity|rprj; auto]. Qed.
+
+  Lemma R2_add_empty_line : opR R2 add_empty_line.
+  Proof.
+    unfold add_empty_line. apply R2_bind; [apply R2_flush|]. apply R2_pure_op.
+    intros x y H. apply (R2_set_abe false), (R2_add_line (RText tl_new)), H.
+  Qed.
+
+  Lemma R2_slines x y : R2 x y -> slines y = slines x /\ wrapping y = wrapping x /\
+    at_block_end y = at_block_end x /\ ann_stack y = ann_stack x /\
+    filter_depth y = filter_depth x /\ pre_depth y = pre_depth x /\ ws_stack y = ws_stack x /\
+    swidth_ y = swidth_ x /\ pending_frags y = pending_frags x.
+  Proof. intros [_ ->]. rprj. auto 10. Qed.
+
+  Lemma R2_start_block : opR R2 start_block.
+  Proof.
+    intros x y Hxy. unfold start_block.
+    eapply res_rel_bind; [apply R2_flush, Hxy|]. intros x1 y1 H1.
+    destruct (R2_slines _ _ H1) as (E & _). rewrite E.
+    eapply res_rel_bind with (P := R2).
+    { destruct (existsb rline_has_content (slines x1)); [apply R2_add_empty_line, H1|exact H1]. }
+    intros x2 y2 H2. cbn [res_rel]. apply (R2_set_abe false), H2.
+  Qed.
+
+  Lemma R2_new_line_hard : opR R2 new_line_hard.
+  Proof.
+    intros x y Hxy. unfold new_line_hard. destruct (R2_slines _ _ Hxy) as (_ & E & _). rewrite E.
+    destruct (wrapping x) as [w|]; [|apply R2_add_empty_line, Hxy].
+    destruct ((wordlen w =? 0) && (tlen_ (wline w) =? 0));
+      [apply R2_add_empty_line, Hxy|apply R2_flush, Hxy].
+  Qed.
+
+  Lemma R2_hline b t : opR R2 (fun s => add_horizontal_line s b t).
+  Proof.
+    unfold add_horizontal_line. apply R2_bind; [apply R2_flush|]. apply R2_pure_op, R2_add_line.
+  Qed.
+
+  Lemma R2_hborder w : opR R2 (fun s => add_horizontal_border_width s w).
+  Proof.
+    intros x y Hxy. unfold add_horizontal_border_width.
+    eapply res_rel_bind; [apply R2_flush, Hxy|]. intros x1 y1 H1.
+    destruct (R2_slines _ _ H1) as (_ & _ & _ & E & _). rewrite E. cbn [res_rel].
+    apply R2_add_line, H1.
+  Qed.
+
+  Lemma R2_get_wrapping x y : R2 x y -> get_wrapping y = get_wrapping x.
+  Proof.
+    intros [[Ho Hw] ->]. unfold get_wrapping. rprj. destruct (wrapping x); [reflexivity|].
+    rewrite Ho, Hww. unfold o2. rprj. f_equal. lia.
+  Qed.
+
+  Lemma R2_set_wrapping w : pureR R2 (fun s => set_wrapping s w).
+  Proof. apply R2_pure; intros; [reflexivity|rprj; auto]. Qed.
+
+  Lemma R2_inline t : opR R2 (fun s => add_inline_text d s t).
+  Proof.
+    intros x y Hxy. unfold add_inline_text. unfold ws_mode.
+    destruct (R2_slines _ _ Hxy) as (_ & _ & E1 & _ & _ & _ & E2 & _). rewrite E1, E2.
+    destruct (negb (preserve_ws match ws_stack x with m0 :: _ => m0 | [] => WsNormal end)
+              && at_block_end x && all_ws t); [exact Hxy|].
+    eapply res_rel_bind with (P := R2).
+    { destruct (at_block_end x); [apply R2_start_block, Hxy|exact Hxy]. }
+    intros x1 y1 H1. rewrite (R2_get_wrapping _ _ H1).
+    destruct (R2_slines _ _ H1) as (_ & _ & _ & F1 & F2 & F3 & F4 & _). rewrite F1, F2, F3, F4.
+    match goal with |- res_rel _ (bind ?e _) (bind ?e _) => destruct e as [w1| | |]; cbn [bind res_rel]; auto end.
+    apply R2_set_wrapping, H1.
+  Qed.
+
+  Lemma R2_push_ann a : pureR R2 (fun s => push_ann s a).
+  Proof. apply R2_pure; intros; [reflexivity|unfold push_ann; rprj; auto]. Qed.
+  Lemma R2_pop_ann : pureR R2 pop_ann.
+  Proof. apply R2_pure; intros; [reflexivity|unfold pop_ann; rprj; auto]. Qed.
+
+  Lemma R2_start_deco p : opR R2 (fun s => start_deco d s p).
+  Proof. intros x y Hxy. unfold start_deco. apply R2_inline, R2_push_ann, Hxy. Qed.
+  Lemma R2_end_deco e : opR R2 (fun s => end_deco d s e).
+  Proof.
+    unfold end_deco. apply R2_bind; [apply R2_inline|apply R2_pure_op, R2_pop_ann].
+  Qed.
+
+  Lemma R2_set_filter n : pureR R2 (fun s => set_filter s n).
+  Proof. apply R2_pure; intros; [reflexivity|rprj; auto]. Qed.
+
+  Lemma R2_opts x y : R2 x y ->
+    o_strike (sopts y) = o_strike (sopts x) /\ o_footnotes (sopts y) = o_footnotes (sopts x) /\
+    o_raw (sopts y) = o_raw (sopts x) /\ o_borders (sopts y) = o_borders (sopts x) /\
+    o_allow_overflow (sopts y) = o_allow_overflow (sopts x) /\
+    o_wrap_links (sopts y) = o_wrap_links (sopts x).
+  Proof. intros [[Ho _] ->]. rprj. rewrite Ho. unfold o2. rprj. auto 10. Qed.
+
+  Lemma R2_start_strikeout : opR R2 (start_strikeout d).
+  Proof.
+    intros x y Hxy. unfold start_strikeout.
+    eapply res_rel_bind; [apply R2_start_deco, Hxy|]. intros x1 y1 H1. cbn [res_rel].
+    destruct (R2_opts _ _ H1) as (E & _). destruct (R2_slines _ _ H1) as (_ & _ & _ & _ & F & _).
+    rewrite E, F. destruct (o_strike (sopts x1)); [apply R2_set_filter, H1|exact H1].
+  Qed.
+
+  Lemma R2_end_strikeout : opR R2 (end_strikeout d).
+  Proof.
+    intros x y Hxy. unfold end_strikeout.
+    destruct (R2_opts _ _ Hxy) as (E & _). destruct (R2_slines _ _ Hxy) as (_ & _ & _ & _ & F & _).
+    rewrite E, F.
+    eapply res_rel_bind with (P := R2); [|intros; apply R2_end_deco; assumption].
+    destruct (o_strike (sopts x)); [|exact Hxy].
+    destruct (filter_depth x); [reflexivity|]. cbn [res_rel]. apply R2_set_filter, Hxy.
+  Qed.
+
+  Lemma R2_image src t : opR R2 (fun s => add_image d s src t).
+  Proof.
+    intros x y Hxy. unfold add_image.
+    eapply res_rel_bind; [apply R2_inline, R2_push_ann, Hxy|]. intros x1 y1 H1.
+    cbn [res_rel]. apply R2_pop_ann, H1.
+  Qed.
+
+  Lemma R2_frag n : pureR R2 (fun s => record_frag_start s n).
+  Proof.
+    intros x y Hxy. unfold record_frag_start. rewrite (R2_get_wrapping _ _ Hxy).
+    apply R2_set_wrapping, Hxy.
+  Qed.
+
+  Lemma R2_sub_into_lines x y : R2 x y -> sub_into_lines y = sub_into_lines x.
+  Proof.
+    intros Hxy. unfold sub_into_lines. pose proof (R2_flush _ _ Hxy) as H.
+    destruct (flush_wrapping x), (flush_wrapping y); cbn [res_rel bind] in *; try contradiction;
+      try congruence.
+    destruct (R2_slines _ _ H) as (E & _). rewrite E. reflexivity.
+  Qed.
+
+  Lemma R2_append x y u v f r :
+    R2 x y -> R2 u v -> res_rel R2 (append_subrender x u f r) (append_subrender y v f r).
+  Proof.
+    intros Hxy Huv. unfold append_subrender.
+    eapply res_rel_bind; [apply R2_flush, Hxy|]. intros x1 y1 H1.
+    rewrite (R2_sub_into_lines _ _ Huv).
+    destruct (sub_into_lines u) as [ols| | |]; cbn [bind res_rel]; auto.
+    destruct (R2_slines _ _ H1) as (_ & _ & _ & E & _). rewrite E.
+    destruct H1 as [Hg ->]. rewrite extend_lines_reopt. split; [|reflexivity].
+    destruct (extend_lines_same (attach_prefixes (ann_stack x1) f r ols) x1) as [A B].
+    eapply good_same; eassumption.
+  Qed.
+
+  Lemma R2_width_minus x y p mn : R2 x y -> width_minus x p mn = width_minus y p mn.
+  Proof.
+    intros Hxy. unfold width_minus. destruct (R2_opts _ _ Hxy) as (_ & _ & _ & _ & E & _).
+    destruct (R2_slines _ _ Hxy) as (_ & _ & _ & _ & _ & _ & _ & F & _). rewrite E, F. reflexivity.
+  Qed.
+
+  Lemma R2_new x y w : R2 x y -> w <= m -> R2 (new_sub_renderer x w) (new_sub_renderer y w).
+  Proof.
+    intros [[Ho Hw] ->] Hm. split; [|reflexivity]. split; [exact Ho|exact Hm].
+  Qed.
+
+  Lemma R2_new_wm x y p mn w :
+    R2 x y -> width_minus x p mn = Ok w -> R2 (new_sub_renderer x w) (new_sub_renderer y w).
+  Proof.
+    intros Hxy Hwm. apply R2_new; [exact Hxy|].
+    destruct Hxy as [[Ho Hw] _]. destruct (width_minus_spec _ _ _ _ Hwm) as [_ H].
+    rewrite Ho in H. specialize (H Hov). lia.
+  Qed.
+
+  Lemma R2_sub_empty u v : R2 u v -> sub_empty u = sub_empty v.
+  Proof.
+    intros Huv. unfold sub_empty. destruct (R2_slines _ _ Huv) as (E1 & E2 & _).
+    rewrite E1, E2. reflexivity.
+  Qed.
+
+  (* ---- append_vert_row ---- *)
+  Lemma R2_vert_cols : forall us vs x y first,
+    R2 x y -> Forall2 R2 us vs -> res_rel R2 (vert_cols x us first) (vert_cols y vs first).
+  Proof.
+    induction us as [|u us IH]; intros vs x y first Hxy Huv; inversion Huv as [|? v ? vs' Huv1 Huv2];
+      subst; cbn [vert_cols]; [exact Hxy|].
+    destruct (R2_opts _ _ Hxy) as (_ & _ & _ & Eb & _).
+    destruct (R2_slines _ _ Hxy) as (_ & _ & _ & Ea & _ & _ & _ & Ew & _).
+    rewrite Eb, Ea, Ew.
+    eapply res_rel_bind with (P := R2).
+    { destruct (negb first && o_borders (sopts x)); [apply R2_hline, Hxy|exact Hxy]. }
+    intros x1 y1 H1.
+    eapply res_rel_bind; [apply R2_append; eassumption|]. intros x2 y2 H2. apply IH; assumption.
+  Qed.
+
+  Lemma R2_vert x y us vs :
+    R2 x y -> Forall2 R2 us vs -> res_rel R2 (append_vert_row x us) (append_vert_row y vs).
+  Proof.
+    intros Hxy Huv. unfold append_vert_row.
+    eapply res_rel_bind; [apply R2_flush, Hxy|]. intros x1 y1 H1.
+    eapply res_rel_bind; [apply R2_vert_cols; eassumption|]. intros x2 y2 H2.
+    destruct (R2_opts _ _ H2) as (_ & _ & _ & Eb & _). rewrite Eb.
+    destruct (o_borders (sopts x2)); [|exact H2].
+    unfold add_horizontal_border.
+    destruct (R2_slines _ _ H2) as (_ & _ & _ & _ & _ & _ & _ & Ew & _). rewrite Ew.
+    apply R2_hborder, H2.
+  Qed.
+
+  (* ---- append_columns_with_borders ---- *)
+  Lemma R2_col_line_sets t : forall us vs,
+    Forall2 R2 us vs -> col_line_sets t us = col_line_sets t vs.
+  Proof.
+    induction us as [|u us IH]; intros vs Huv; inversion Huv as [|? v ? vs' Huv1 Huv2]; subst;
+      cbn [col_line_sets]; [reflexivity|].
+    rewrite (R2_sub_into_lines _ _ Huv1), (IH _ Huv2).
+    destruct (R2_slines _ _ Huv1) as (_ & _ & _ & _ & _ & _ & _ & Ew & _). rewrite Ew. reflexivity.
+  Qed.
+
+  Lemma row_lines_reopt t draw sets pads o : forall n i s,
+    row_lines t draw n i sets pads (reopt s o) = reopt (row_lines t draw n i sets pads s) o.
+  Proof.
+    induction n as [|n IH]; intros i s; cbn [row_lines]; [reflexivity|].
+    rewrite add_line_reopt. apply IH.
+  Qed.
+
+  Lemma row_lines_same t draw sets pads : forall n i s,
+    swidth_ (row_lines t draw n i sets pads s) = swidth_ s /\
+    sopts (row_lines t draw n i sets pads s) = sopts s.
+  Proof.
+    induction n as [|n IH]; intros i s; cbn [row_lines]; [auto|].
+    destruct (IH (S i) (add_line s (RText (row_line t draw i sets pads tl_new)))) as [A B].
+    destruct (add_line_same s (RText (row_line t draw i sets pads tl_new))) as (a & b & _).
+    split; congruence.
+  Qed.
+
+  Lemma R2_cols x y us vs collapse :
+    R2 x y -> Forall2 R2 us vs ->
+    res_rel R2 (append_columns_with_borders x us collapse) (append_columns_with_borders y vs collapse).
+  Proof.
+    intros Hxy Huv. unfold append_columns_with_borders.
+    eapply res_rel_bind; [apply R2_flush, Hxy|]. intros x1 y1 H1.
+    destruct (R2_slines _ _ H1) as (El & _ & _ & Ea & _ & _ & _ & _ & Ep).
+    rewrite Ea, El, Ep, <- (R2_col_line_sets (ann_stack x1) us vs Huv).
+    destruct (col_line_sets (ann_stack x1) us) as [sets| | |]; cbn [bind res_rel]; auto.
+    destruct (match sets with [] => Panic 36 | _ :: _ => Ok tt end) as [[]| | |];
+      cbn [bind res_rel]; auto.
+    match goal with
+    | |- res_rel _ (let '(p1, n1) := ?e in _) _ => destruct e as [prev1 next1]
+    end.
+    match goal with
+    | |- res_rel _ (bind ?e _) (bind ?e _) =>
+      destruct e as [[[[prev3 next3] sets4] pads]| | |]; cbn [bind res_rel]; auto
+    end.
+    destruct H1 as [Hg ->]. rprj.
+    set (lines1 := match olast (slines x1) with
+                   | Some (RLine _ pt) =>
+                     match prev3 with
+                     | Some pb => replace_last (slines x1) (RLine pb pt)
+                     | None => slines x1
+                     end
+                   | _ => slines x1
+                   end).
+    change (set_lines (reopt x1 o2) lines1 (pending_frags x1))
+      with (reopt (set_lines x1 lines1 (pending_frags x1)) o2).
+    rewrite row_lines_reopt. rprj.
+    destruct Hg as [Ho Hw]. rewrite Ho. unfold o2 at 1 3. rprj.
+    set (s3 := row_lines _ _ _ _ _ _ _).
+    assert (Hg3 : good s3).
+    { subst s3.
+      match goal with
+      | |- good (row_lines ?t ?dr ?n ?i ?sets ?pads ?s) =>
+        destruct (row_lines_same t dr sets pads n i s) as [A B]
+      end.
+      split; [rewrite B; exact Ho|rewrite A; exact Hw]. }
+    destruct (o_borders o1).
+    - rewrite add_line_reopt. split; [|reflexivity].
+      destruct (add_line_same s3 (RLine next3 (ann_stack x1))) as (a & b & _).
+      eapply good_same; eassumption.
+    - split; [exact Hg3|reflexivity].
+  Qed.
+
+  Lemma R2_ops : SimOps d R2.
+  Proof.
+    constructor.
+    - intros r g b. apply R2_pure; intros; unfold push_colour; destruct (d_colours d);
+        try reflexivity; unfold push_ann; rprj; auto.
+    - intros r g b. apply R2_pure; intros; unfold push_bgcolour; destruct (d_colours d);
+        try reflexivity; unfold push_ann; rprj; auto.
+    - intros mo. apply R2_pure; intros; [reflexivity|unfold push_ws_mode; rprj; auto].
+    - apply R2_pure; intros; [reflexivity|unfold push_preformat; rprj; auto].
+    - apply R2_pure; intros; unfold pop_colour; destruct (d_colours d);
+        try reflexivity; unfold pop_ann; rprj; auto.
+    - apply R2_pure; intros; [reflexivity|unfold pop_ws_mode; rprj; auto].
+    - intros x y Hxy. unfold pop_preformat.
+      destruct (R2_slines _ _ Hxy) as (_ & _ & _ & _ & _ & E & _). rewrite E.
+      destruct (0 <? pre_depth x); [|reflexivity]. cbn [res_rel].
+      revert x y Hxy E. intros x y Hxy E.
+      assert (P : pureR R2 (fun s => set_pre_depth s (pre_depth x - 1)))
+        by (apply R2_pure; intros; [reflexivity|rprj; auto]).
+      apply P, Hxy.
+    - apply R2_inline.
+    - intros h. apply R2_start_deco.
+    - apply (R2_end_deco (d_link_end d)).
+    - intros x y Hxy. destruct (R2_opts _ _ Hxy) as (_ & E & _). auto.
+    - apply (R2_start_deco (d_em_start d)).
+    - apply (R2_end_deco (d_em_end d)).
+    - apply (R2_start_deco (d_strong_start d)).
+    - apply (R2_end_deco (d_strong_end d)).
+    - apply R2_start_strikeout.
+    - apply R2_end_strikeout.
+    - apply (R2_start_deco (d_code_start d)).
+    - apply (R2_end_deco (d_code_end d)).
+    - apply (R2_start_deco (d_sup_start d)).
+    - apply (R2_end_deco (d_sup_end d)).
+    - apply R2_image.
+    - apply R2_start_block.
+    - apply (R2_set_abe true).
+    - apply R2_flush.
+    - apply R2_new_line_hard.
+    - apply R2_frag.
+    - intros; apply R2_width_minus; assumption.
+    - intros; eapply R2_new_wm; eassumption.
+    - intros; apply R2_append; assumption.
+    - intros x y Hxy. destruct (R2_slines _ _ Hxy) as (_ & _ & _ & _ & _ & _ & _ & E & _). auto.
+    - intros x y Hxy. destruct (R2_opts _ _ Hxy) as (_ & _ & E & _). auto.
+    - intros x y Hxy. destruct (R2_opts _ _ Hxy) as (_ & _ & _ & E & _). auto.
+    - apply R2_hborder.
+    - intros x y u v w Hxy Hw Huv. apply R2_new; [exact Huv|].
+      destruct Hxy as [[_ Hm] _]. lia.
+    - intros; apply R2_vert; assumption.
+    - intros; apply R2_cols; assumption.
+    - apply R2_sub_empty.
+  Qed.
+End PartB.
+
+(* ---- the footnote list (fmt_links) ---- *)
+Lemma fl_chars_reopt o t : forall cs s buf wl pos,
+  fl_chars (reopt s o) t cs buf wl pos =
+  (let '(s', b, w, p) := fl_chars s t cs buf wl pos in (reopt s' o, b, w, p)).
+Proof.
+  induction cs as [|c cs IH]; intros s buf wl pos; cbn [fl_chars]; [reflexivity|]. rprj.
+  destruct (swidth_ s <? pos + cw0 c); [rewrite add_line_reopt|]; apply IH.
+Qed.
+
+Lemma fl_chars_same t : forall cs s buf wl pos,
+  swidth_ (fst (fst (fst (fl_chars s t cs buf wl pos)))) = swidth_ s /\
+  sopts (fst (fst (fst (fl_chars s t cs buf wl pos)))) = sopts s.
+Proof.
+  induction cs as [|c cs IH]; intros s buf wl pos; cbn [fl_chars]; [cbn [fst]; auto|].
+  destruct (swidth_ s <? pos + cw0 c); [|apply IH].
+  match goal with |- context [fl_chars (add_line s ?l) t cs ?b ?w ?p] =>
+    destruct (IH (add_line s l) b w p) as [A B]; destruct (add_line_same s l) as (a & b' & _)
+  end. split; congruence.
+Qed.
+
+Lemma fl_strings_reopt o : forall sl s wl pos,
+  o_wrap_links o = o_wrap_links (sopts s) ->
+  fl_strings (reopt s o) sl wl pos =
+  (let '(s', w) := fl_strings s sl wl pos in (reopt s' o, w)) /\
+  swidth_ (fst (fl_strings s sl wl pos)) = swidth_ s /\
+  sopts (fst (fl_strings s sl wl pos)) = sopts s.
+Proof.
+  induction sl as [|[str tg] sl IH]; intros s wl pos Ho; cbn [fl_strings]; [cbn [fst]; auto|].
+  rprj. rewrite Ho.
+  destruct (o_wrap_links (sopts s) && (swidth_ s <? pos + swidth (nl_to_space str))); [|apply IH, Ho].
+  rewrite fl_chars_reopt.
+  pose proof (fl_chars_same [ADefault] (nl_to_space str) s [] wl pos) as [A B].
+  destruct (fl_chars s [ADefault] (nl_to_space str) [] wl pos) as [[[s1 buf] wl1] pos1].
+  cbn [fst] in A, B.
+  destruct (IH s1 (tl_push_str wl1 buf [ADefault]) pos1) as (C & D & E); [congruence|].
+  split; [exact C|]. split; congruence.
+Qed.
+
+Lemma fmt_links_reopt o : forall links s,
+  o_wrap_links o = o_wrap_links (sopts s) ->
+  fmt_links (reopt s o) links = reopt (fmt_links s links) o /\
+  swidth_ (fmt_links s links) = swidth_ s /\ sopts (fmt_links s links) = sopts s.
+Proof.
+  induction links as [|l links IH]; intros s Ho; cbn [fmt_links]; [auto|].
+  destruct (fl_strings_reopt o (tl_tagged_strings l) s tl_new 0 Ho) as (A & B & C).
+  rewrite A. destruct (fl_strings s (tl_tagged_strings l) tl_new 0) as [s1 wl]. cbn [fst] in B, C.
+  rewrite add_line_reopt.
+  destruct (add_line_same s1 (RText wl)) as (a & b & _).
+  destruct (IH (add_line s1 (RText wl))) as (D & E & F); [congruence|].
+  split; [exact D|]. split; congruence.
+Qed.
+
+(* o2 is o1 with a maximum wrap width *)
+Definition same_but_wrap (o1 o2 : ropts) : Prop :=
+  o_allow_overflow o2 = o_allow_overflow o1 /\ o_pad o2 = o_pad o1 /\ o_raw o2 = o_raw o1 /\
+  o_borders o2 = o_borders o1 /\ o_wrap_links o2 = o_wrap_links o1 /\
+  o_footnotes o2 = o_footnotes o1 /\ o_strike o2 = o_strike o1.
+
+Lemma same_but_wrap_eq o1 o2 m :
+  same_but_wrap o1 o2 -> wrap_width o2 = Some m -> o2 = with_max_wrap o1 m.
+Proof.
+  destruct o2. unfold same_but_wrap, with_max_wrap. rprj.
+  intros (-> & -> & -> & -> & -> & -> & ->) ->. reflexivity.
+Qed.
+
+(* MAIN THEOREM (C15, first clause), whole renderer.
+   o1 has no maximum wrap width and does not allow overflow; o2 = o1 + maximum wrap width m,
+   width <= m.  Then the two renders have the same outcome kind (the same Panic site even) and,
+   when Ok, the resulting sub-renderers are equal up to the stored options; in particular
+   they have the same lines. *)
+Theorem c15_maxwrap_noop_render d mw o1 o2 m width tree :
+  wrap_width o1 = None -> wrap_width o2 = Some m -> same_but_wrap o1 o2 ->
+  o_allow_overflow o1 = false -> width <= m ->
+  res_rel (fun s1 s2 => s2 = reopt s1 o2 /\ sub_into_lines s2 = sub_into_lines s1)
+          (render_tree d mw o1 width tree) (render_tree d mw o2 width tree).
+Proof.
+  intros Hww Hm Hsame Hov Hw. rewrite (same_but_wrap_eq _ _ _ Hsame Hm). clear o2 Hm Hsame.
+  set (o2 := with_max_wrap o1 m).
+  apply res_rel_impl with (P := R2 o1 m).
+  { intros a b Hab. split; [apply Hab|]. apply (R2_sub_into_lines o1 m), Hab. }
+  unfold render_tree.
+  destruct (est_of d mw tree) as [e| | |]; cbn [bind res_rel]; auto.
+  eapply res_rel_bind.
+  { apply (node_sim_all d mw (R2 o1 m) (R2_ops d o1 m Hww Hov) tree [] []).
+    split; [reflexivity|]. exists (sub_new width o1), (sub_new width o2). cbn [stack].
+    split; [reflexivity|]. split; [reflexivity|]. split; [split; [reflexivity|exact Hw]|reflexivity]. }
+  intros a b (Hl & s1 & s2 & E1 & E2 & Hs). rewrite E1, E2, <- Hl.
+  unfold sub_finalise. destruct (R2_opts o1 m _ _ Hs) as (_ & Ef & _ & _ & _ & Ewl). rewrite Ef.
+  destruct (if o_footnotes (sopts s1) then finalise_from 1 (links a) else []) as [|l ls] eqn:El;
+    [exact Hs|].
+  eapply res_rel_bind; [apply (R2_start_block o1 m), Hs|]. intros x y [Hg ->]. cbn [res_rel].
+  destruct (fmt_links_reopt o2 (l :: ls) x) as (A & B & C).
+  { destruct Hg as [Ho _]. rewrite Ho. reflexivity. }
+  split; [|exact A]. eapply good_same; eassumption.
+Qed.
+Print Assumptions c15_maxwrap_noop_render.
+
+Lemma bind_assoc {A B C} (x : res A) (f : A -> res B) (g : B -> res C) :
+  (do b <- (do a <- x; f a); g b) = (do a <- x; do b <- f a; g b).
+Proof. destruct x; reflexivity. Qed.
+
+(* the same, as plain statements *)
+Corollary c15_maxwrap_same_lines d mw o1 o2 m width tree :
+  wrap_width o1 = None -> wrap_width o2 = Some m -> same_but_wrap o1 o2 ->
+  o_allow_overflow o1 = false -> width <= m ->
+  (do s <- render_tree d mw o2 width tree; sub_into_lines s) =
+  (do s <- render_tree d mw o1 width tree; sub_into_lines s).
+Proof.
+  intros H1 H2 H3 H4 H5. pose proof (c15_maxwrap_noop_render d mw o1 o2 m width tree H1 H2 H3 H4 H5) as H.
+  destruct (render_tree d mw o1 width tree), (render_tree d mw o2 width tree);
+    cbn [res_rel bind] in *; try contradiction; try congruence. apply H.
+Qed.
+
+(* through the public routes: setting max_wrap_width to m >= width changes neither the lines nor
+   the string (the very same outcome, errors included) *)
+Section RoutesB.
+  Variable inl : list (text * text) -> res (list styledecl).
+  Variable dr : list node -> res (list ruleset).
+
+  Lemma c15_render_with_context c tree w m :
+    c_max_wrap c = None -> c_overflow c = false -> w <= m ->
+    (do s <- render_with_context (set_max_wrap c m) tree w; sub_into_lines s) =
+    (do s <- render_with_context c tree w; sub_into_lines s).
+  Proof.
+    intros Hn Ho Hw. unfold render_with_context. destruct (w =? 0); [reflexivity|].
+    apply (c15_maxwrap_same_lines _ _ (render_options c) (render_options (set_max_wrap c m)) m);
+      auto; unfold same_but_wrap; cbn; auto 10.
+  Qed.
+
+  Theorem c15_lines_from_read c doc w m :
+    c_max_wrap c = None -> c_overflow c = false -> w <= m ->
+    lines_from_read inl dr (set_max_wrap c m) doc w = lines_from_read inl dr c doc w.
+  Proof.
+    intros Hn Ho Hw. unfold lines_from_read.
+    change (to_render_tree inl dr (set_max_wrap c m) doc) with (to_render_tree inl dr c doc).
+    destruct (to_render_tree inl dr c doc) as [tree| | |]; cbn [bind]; try reflexivity.
+    rewrite <- !bind_assoc. rewrite (c15_render_with_context c tree w m Hn Ho Hw). reflexivity.
+  Qed.
+
+  Theorem c15_string_from_read c doc w m :
+    c_max_wrap c = None -> c_overflow c = false -> w <= m ->
+    string_from_read inl dr (set_max_wrap c m) doc w = string_from_read inl dr c doc w.
+  Proof.
+    intros Hn Ho Hw. unfold string_from_read.
+    change (to_render_tree inl dr (set_max_wrap c m) doc) with (to_render_tree inl dr c doc).
+    destruct (to_render_tree inl dr c doc) as [tree| | |]; cbn [bind]; try reflexivity.
+    unfold sub_into_string.
+    rewrite <- !bind_assoc. rewrite (c15_render_with_context c tree w m Hn Ho Hw). reflexivity.
+  Qed.
+End RoutesB.
+Print Assumptions c15_lines_from_read.
+Print Assumptions c15_string_from_read.
+
+(* ---- non-vacuity, and why `o_allow_overflow o1 = false` is needed ---- *)
+Definition exb_opts : ropts := render_options (with_decorator plain_deco).
+Definition exb_opts_m (m : N) : ropts := render_options (set_max_wrap (with_decorator plain_deco) m).
+Definition out_of (r : res subr) : res (list (list N)) :=
+  do s <- r; do ls <- sub_into_lines s; Ok (map (fun l => cps (rline_string l)) ls).
+
+(* the tree of RenderWidth (paragraph, table, ul, ol) at width 12, maximum wrap width 12:
+   the hypotheses hold and both sides are Ok with 14 lines *)
+Example exb_applies :
+  wrap_width exb_opts = None /\ wrap_width (exb_opts_m 12) = Some 12 /\
+  same_but_wrap exb_opts (exb_opts_m 12) /\ o_allow_overflow exb_opts = false /\
+  (exists ls, out_of (render_tree plain_deco 3 exb_opts 12 ex_tree) = Ok ls /\ length ls = 14%nat /\
+              out_of (render_tree plain_deco 3 (exb_opts_m 12) 12 ex_tree) = Ok ls) /\
+  (* a smaller maximum does change the output, so the statement is not trivially true *)
+  out_of (render_tree plain_deco 3 (exb_opts_m 6) 12 ex_tree)
+    <> out_of (render_tree plain_deco 3 exb_opts 12 ex_tree).
+Proof.
+  split; [reflexivity|]. split; [reflexivity|]. split; [unfold same_but_wrap; cbn; auto 10|].
+  split; [reflexivity|]. split.
+  - eexists. split; [vm_compute; reflexivity|]. split; vm_compute; reflexivity.
+  - vm_compute. discriminate.
+Qed.
+
+(* FINDING.  With allow_width_overflow the statement is false: `width_minus` then gives a nested
+   block the width max(width - prefix, estimated minimum), which can exceed the outer width, and
+   a maximum wrap width m >= width still bites inside it.
+   <blockquote>ab c d</blockquote> at width 2 with overflow allowed:
+     no maximum:        "> ab" / "> c d"      (the quote's sub-renderer has width 3)
+     max_wrap_width 2:  "> ab" / "> c" / "> d" *)
+Definition cexb_o1 : ropts := render_options (set_overflow (with_decorator plain_deco)).
+Definition cexb_o2 : ropts := render_options (set_max_wrap (set_overflow (with_decorator plain_deco)) 2).
+Definition cexb_tree : rnode := ex_n (IBlockQuote [ex_n (IText (ex_str [97;98;32;99;32;100]))]).
+Example cexb_overflow_maxwrap_bites :
+  wrap_width cexb_o1 = None /\ wrap_width cexb_o2 = Some 2 /\ same_but_wrap cexb_o1 cexb_o2 /\
+  out_of (render_tree plain_deco 3 cexb_o1 2 cexb_tree) = Ok [[62;32;97;98]; [62;32;99;32;100]] /\
+  out_of (render_tree plain_deco 3 cexb_o2 2 cexb_tree) = Ok [[62;32;97;98]; [62;32;99]; [62;32;100]].
+Proof.
+  split; [reflexivity|]. split; [reflexivity|]. split; [unfold same_but_wrap; cbn; auto 10|].
+  split; vm_compute; reflexivity.
+Qed.
+
+(* ================================================================== *)
+(* 6. `clean_top` is an invariant of the renderer                       *)
+(* ================================================================== *)
+(* (pending fragment markers never carry text: the side condition of the line equations of
+   section 4 holds in the initial state, in every fresh sub-renderer, and is preserved by
+   render_node.)  Obtained from the simulation of section 1 with the diagonal relation
+   "the same sub-renderer, and it is clean". *)
+
+Definition CL (x y : subr) : Prop := x = y /\ ptxt x = [].
+Definition keepc (f : subr -> res subr) : Prop :=
+  forall s s', ptxt s = [] -> f s = Ok s' -> ptxt s' = [].
+
+Lemma CL_pure g : (forall s, pending_frags (g s) = pending_frags s) -> pureR CL g.
+Proof. intros H x y [<- Hp]. split; [reflexivity|]. unfold ptxt in *. rewrite H. exact Hp. Qed.
+
+Lemma CL_op f : keepc f -> opR CL f.
+Proof.
+  intros H x y [<- Hp]. destruct (f x) as [x'| | |] eqn:E; cbn [res_rel]; auto.
+  split; [reflexivity|]. eapply H; eassumption.
+Qed.
+
+Lemma keepc_bind f g : keepc f -> keepc g -> keepc (fun s => do x <- f s; g x).
+Proof. intros Hf Hg s s' Hp H. bind_inv H x Hx. eapply Hg; [|exact H]. eapply Hf; eassumption. Qed.
+
+Lemma keepc_pure g : (forall s, pending_frags (g s) = pending_frags s) -> keepc (fun s => Ok (g s)).
+Proof. intros H s s' Hp E. ok_inv E. unfold ptxt in *. rewrite H. exact Hp. Qed.
+
+Lemma keepc_flush : keepc flush_wrapping.
+Proof. intros s s' Hp H. apply (flush_wrapping_spec _ _ H Hp). Qed.
+
+Lemma keepc_add_line l : keepc (fun s => Ok (add_line s l)).
+Proof. intros s s' Hp H. ok_inv H. apply (add_line_spec s l Hp). Qed.
+
+Lemma keepc_add_empty_line : keepc add_empty_line.
+Proof.
+  unfold add_empty_line. apply keepc_bind; [apply keepc_flush|].
+  intros s s' Hp H. ok_inv H. unfold ptxt. sprj. apply (add_line_spec s (RText tl_new) Hp).
+Qed.
+
+Lemma keepc_start_block : keepc start_block.
+Proof. intros s s' Hp H. apply (start_block_spec _ _ H Hp). Qed.
+
+Lemma keepc_new_line_hard : keepc new_line_hard.
+Proof.
+  intros s s' Hp H. unfold new_line_hard in H. destruct (wrapping s) as [w|].
+  - destruct ((wordlen w =? 0) && (tlen_ (wline w) =? 0));
+      [eapply keepc_add_empty_line|eapply keepc_flush]; eassumption.
+  - eapply keepc_add_empty_line; eassumption.
+Qed.
+
+Lemma keepc_inline d t : keepc (fun s => add_inline_text d s t).
+Proof.
+  intros s s' Hp H. unfold add_inline_text in H.
+  destruct (negb (preserve_ws (ws_mode s)) && at_block_end s && all_ws t); [ok_inv H; exact Hp|].
+  bind_inv H s1 H1. bind_inv H w1 Hw. ok_inv H. unfold ptxt. sprj.
+  destruct (at_block_end s); [eapply keepc_start_block; eassumption|ok_inv H1; exact Hp].
+Qed.
+
+Lemma keepc_start_deco d p : keepc (fun s => start_deco d s p).
+Proof. intros s s' Hp H. unfold start_deco in H. eapply keepc_inline; [|exact H]. exact Hp. Qed.
+
+Lemma keepc_end_deco d e : keepc (fun s => end_deco d s e).
+Proof. unfold end_deco. apply keepc_bind; [apply keepc_inline|apply keepc_pure; reflexivity]. Qed.
+
+Lemma keepc_hline b t : keepc (fun s => add_horizontal_line s b t).
+Proof. unfold add_horizontal_line. apply keepc_bind; [apply keepc_flush|apply keepc_add_line]. Qed.
+
+Lemma keepc_hborder w : keepc (fun s => add_horizontal_border_width s w).
+Proof.
+  intros s s' Hp H. unfold add_horizontal_border_width in H. bind_inv H s1 H1. ok_inv H.
+  apply add_line_spec. eapply keepc_flush; eassumption.
+Qed.
+
+Lemma keepc_append other f r : keepc (fun s => append_subrender s other f r).
+Proof.
+  intros s s' Hp H. destruct (append_subrender_spec _ _ _ _ _ H Hp) as (? & _ & _ & _ & E & _).
+  exact E.
+Qed.
+
+Lemma keepc_vert_cols : forall cols first s s',
+  ptxt s = [] -> vert_cols s cols first = Ok s' -> ptxt s' = [].
+Proof.
+  induction cols as [|c cols IH]; intros first s s' Hp H; cbn [vert_cols] in H; [ok_inv H; exact Hp|].
+  bind_inv H s1 H1. bind_inv H s2 H2. eapply IH; [|exact H].
+  eapply keepc_append; [|exact H2].
+  destruct (negb first && o_borders (sopts s)); [eapply keepc_hline; eassumption|ok_inv H1; exact Hp].
+Qed.
+
+Lemma keepc_vert cols : keepc (fun s => append_vert_row s cols).
+Proof.
+  intros s s' Hp H. unfold append_vert_row in H. bind_inv H s1 H1. bind_inv H s2 H2.
+  assert (Hp2 : ptxt s2 = []).
+  { eapply keepc_vert_cols; [|exact H2]. eapply keepc_flush; eassumption. }
+  destruct (o_borders (sopts s2)); [|ok_inv H; exact Hp2].
+  eapply keepc_hborder; eassumption.
+Qed.
+
+Lemma row_lines_clean t draw sets pads : forall n i s,
+  ptxt s = [] -> ptxt (row_lines t draw n i sets pads s) = [].
+Proof.
+  induction n as [|n IH]; intros i s Hp; cbn [row_lines]; [exact Hp|].
+  apply IH. apply add_line_spec, Hp.
+Qed.
+
+Lemma keepc_cols cols collapse : keepc (fun s => append_columns_with_borders s cols collapse).
+Proof.
+  intros s s' Hp H. unfold append_columns_with_borders in H.
+  bind_inv H s1 H1. bind_inv H sets Hsets. bind_inv H chk Hchk.
+  match type of H with (let '(p1, n1) := ?e in _) = _ => destruct e as [prev1 next1] end.
+  bind_inv H r Hr. destruct r as [[[prev3 next3] sets4] pads]. ok_inv H.
+  assert (Hp1 : ptxt s1 = []) by (eapply keepc_flush; eassumption).
+  match goal with
+  | |- ptxt (if ?c then add_line ?s3 ?l else _) = [] =>
+    assert (Hp3 : ptxt s3 = []); [|destruct c; [apply add_line_spec, Hp3|exact Hp3]]
+  end.
+  apply row_lines_clean. exact Hp1.
+Qed.
+
+Lemma CL_ops d : SimOps d CL.
+Proof.
+  constructor.
+  - intros r g b. apply CL_pure. intros s. unfold push_colour, push_ann. destruct (d_colours d); reflexivity.
+  - intros r g b. apply CL_pure. intros s. unfold push_bgcolour, push_ann. destruct (d_colours d); reflexivity.
+  - intros mo. apply CL_pure. reflexivity.
+  - apply CL_pure. reflexivity.
+  - apply CL_pure. intros s. unfold pop_colour, pop_ann. destruct (d_colours d); reflexivity.
+  - apply CL_pure. reflexivity.
+  - apply CL_op. intros s s' Hp H. unfold pop_preformat in H.
+    destruct (0 <? pre_depth s); [ok_inv H; exact Hp|discriminate].
+  - intros t. apply CL_op, keepc_inline.
+  - intros h. apply CL_op, keepc_start_deco.
+  - apply CL_op, (keepc_end_deco d (d_link_end d)).
+  - intros x y [<- _]. reflexivity.
+  - apply CL_op, (keepc_start_deco d (d_em_start d)).
+  - apply CL_op, (keepc_end_deco d (d_em_end d)).
+  - apply CL_op, (keepc_start_deco d (d_strong_start d)).
+  - apply CL_op, (keepc_end_deco d (d_strong_end d)).
+  - apply CL_op. unfold start_strikeout. apply keepc_bind; [apply keepc_start_deco|].
+    intros s s' Hp H. ok_inv H. destruct (o_strike (sopts s)); exact Hp.
+  - apply CL_op. intros s s' Hp H. unfold end_strikeout in H. bind_inv H s1 H1.
+    eapply keepc_end_deco; [|exact H].
+    destruct (o_strike (sopts s)); [|ok_inv H1; exact Hp].
+    destruct (filter_depth s); [discriminate|ok_inv H1; exact Hp].
+  - apply CL_op, (keepc_start_deco d (d_code_start d)).
+  - apply CL_op, (keepc_end_deco d (d_code_end d)).
+  - apply CL_op, (keepc_start_deco d (d_sup_start d)).
+  - apply CL_op, (keepc_end_deco d (d_sup_end d)).
+  - intros src t. apply CL_op. unfold add_image.
+    intros s s' Hp H. bind_inv H s1 H1. ok_inv H.
+    eapply (keepc_inline d) in H1; [exact H1|exact Hp].
+  - apply CL_op, keepc_start_block.
+  - apply CL_pure. reflexivity.
+  - apply CL_op, keepc_flush.
+  - apply CL_op, keepc_new_line_hard.
+  - intros n. apply CL_pure. reflexivity.
+  - intros x y p mn [<- _]. reflexivity.
+  - intros x y p mn w [<- _] _. split; reflexivity.
+  - intros x y u v f r [<- Hp] [<- _]. apply (CL_op (fun s => append_subrender s u f r));
+      [apply keepc_append|split; [reflexivity|exact Hp]].
+  - intros x y [<- _]. reflexivity.
+  - intros x y [<- _]. reflexivity.
+  - intros x y [<- _]. reflexivity.
+  - intros w. apply CL_op, keepc_hborder.
+  - intros x y u v w _ _ [<- _]. split; reflexivity.
+  - intros x y us vs [<- Hp] Huv.
+    assert (us = vs).
+    { clear -Huv. induction Huv as [|u v us vs [E _] _ IH]; [reflexivity|congruence]. }
+    subst vs. apply (CL_op (fun s => append_vert_row s us)); [apply keepc_vert|split; auto].
+  - intros x y us vs [<- Hp] Huv.
+    assert (us = vs).
+    { clear -Huv. induction Huv as [|u v us vs [E _] _ IH]; [reflexivity|congruence]. }
+    subst vs. apply (CL_op (fun s => append_columns_with_borders s us true));
+      [apply keepc_cols|split; auto].
+  - intros u v [<- _]. reflexivity.
+Qed.
+
+(* render_node keeps the top sub-renderer clean (and leaves the rest of the stack alone) *)
+Theorem clean_top_preserved d mw n st st' :
+  render_node d mw n st = Ok st' -> clean_top st -> clean_top st'.
+Proof.
+  intros H Hc. unfold clean_top in *. destruct (stack st) as [|s rest] eqn:Es; [contradiction|].
+  assert (HS : StR CL rest rest st st).
+  { split; [reflexivity|]. exists s, s. repeat split; auto. }
+  pose proof (node_sim_all d mw CL (CL_ops d) n rest rest st st HS) as G.
+  rewrite H in G. cbn [res_rel] in G. destruct G as (_ & s1 & s2 & E1 & _ & _ & Hp).
+  rewrite E1. exact Hp.
+Qed.
+
+Lemma clean_top_kids d mw cs st st' : rkids d mw cs st = Ok st' -> clean_top st -> clean_top st'.
+Proof.
+  unfold rkids. intros H Hc. revert H.
+  apply (fold_bind_inv clean_top (render_node d mw) cs); [|exact Hc].
+  intros n _ a a' Ha Hn. eapply clean_top_preserved; eassumption.
+Qed.
+
+(* the states in which rendering starts are clean: the initial one and every fresh sub-renderer *)
+Lemma clean_top_initial width o : clean_top (mkrst [sub_new width o] []).
+Proof. reflexivity. Qed.
+Lemma clean_top_fresh tp w lk : clean_top (mkrst [new_sub_renderer tp w] lk).
+Proof. reflexivity. Qed.
+Print Assumptions clean_top_preserved.
+
+(* ================================================================== *)
+(* 7. C07: nested structures stack their prefixes                       *)
+(* ================================================================== *)
+(* The equations of section 4 compose: the `nested` premise of the outer node is a run of
+   render_node on the inner node from a fresh (hence clean, empty) state, to which the equation
+   of the inner node applies.  Worked out for a block quote directly inside a block quote. *)
+
+Lemma extend_lines_ext l : forall a b,
+  slines a = slines b -> pending_frags a = pending_frags b ->
+  slines (extend_lines a l) = slines (extend_lines b l) /\
+  pending_frags (extend_lines a l) = pending_frags (extend_lines b l).
+Proof.
+  unfold extend_lines. induction l as [|x l IH]; intros a b H1 H2; cbn [fold_left]; [auto|].
+  apply IH; unfold add_line; rewrite H1, H2; destruct (pending_frags b), x; reflexivity.
+Qed.
+
+Lemma sub_into_lines_ext s s' :
+  slines s' = slines s -> pending_frags s' = pending_frags s -> wrapping s' = wrapping s ->
+  sub_into_lines s' = sub_into_lines s.
+Proof.
+  intros H1 H2 H3. unfold sub_into_lines, flush_wrapping. rewrite H3.
+  destruct (wrapping s) as [w|]; [|cbn [bind]; congruence].
+  destruct (take_trailing_fragments w) as [w1 frags].
+  destruct (wb_into_lines w1) as [ls| | |]; cbn [bind]; try reflexivity. sprj. f_equal.
+  apply extend_lines_ext; sprj; assumption.
+Qed.
+
+Definition same_out (s s' : subr) : Prop :=
+  slines s' = slines s /\ pending_frags s' = pending_frags s /\ wrapping s' = wrapping s.
+
+Lemma same_out_trans a b c : same_out a b -> same_out b c -> same_out a c.
+Proof. unfold same_out. intuition congruence. Qed.
+
+Lemma with_top'_out g s rest lk st' :
+  (forall x, same_out x (g x)) -> with_top' (mkrst (s :: rest) lk) g = Ok st' ->
+  exists s', st' = mkrst (s' :: rest) lk /\ same_out s s'.
+Proof.
+  intros Hg H. unfold with_top' in H. destruct (with_top_mk _ _ _ _ _ H) as (s' & E & ->).
+  ok_inv E. eauto.
+Qed.
+
+Lemma apply_style_out d s rest lk cs st ps :
+  apply_style d (mkrst (s :: rest) lk) cs = Ok (st, ps) ->
+  exists s', st = mkrst (s' :: rest) lk /\ same_out s s'.
+Proof.
+  intros H. unfold apply_style in H.
+  bind_inv H st1 H1. bind_inv H st2 H2. bind_inv H st3 H3. bind_inv H st4 H4. injection H as <- _.
+  assert (A1 : exists s1, st1 = mkrst (s1 :: rest) lk /\ same_out s s1).
+  { destruct (ws_val (c_colour (cs_core cs))) as [[[r g] b]|].
+    - eapply with_top'_out; [|exact H1]. intros x. unfold push_colour, push_ann.
+      destruct (d_colours d); repeat split.
+    - ok_inv H1. exists s. repeat split. }
+  destruct A1 as (s1 & -> & O1).
+  assert (A2 : exists s2, st2 = mkrst (s2 :: rest) lk /\ same_out s1 s2).
+  { destruct (ws_val (c_bg (cs_core cs))) as [[[r g] b]|].
+    - eapply with_top'_out; [|exact H2]. intros x. unfold push_bgcolour, push_ann.
+      destruct (d_colours d); repeat split.
+    - ok_inv H2. exists s1. repeat split. }
+  destruct A2 as (s2 & -> & O2).
+  assert (A3 : exists s3, st3 = mkrst (s3 :: rest) lk /\ same_out s2 s3).
+  { destruct (match ws_val (c_white_space (cs_core cs)) with
+              | Some WsPre => Some WsPre
+              | Some WsPreWrap => Some WsPreWrap
+              | _ => None
+              end) as [mo|].
+    - eapply with_top'_out; [|exact H3]. intros x. repeat split.
+    - ok_inv H3. exists s2. repeat split. }
+  destruct A3 as (s3 & -> & O3).
+  assert (A4 : exists s4, st4 = mkrst (s4 :: rest) lk /\ same_out s3 s4).
+  { destruct (cs_internal_pre cs).
+    - eapply with_top'_out; [|exact H4]. intros x. repeat split.
+    - ok_inv H4. exists s3. repeat split. }
+  destruct A4 as (s4 & -> & O4). exists s4. split; [reflexivity|].
+  eapply same_out_trans; [|exact O4]. eapply same_out_trans; [|exact O3].
+  eapply same_out_trans; eassumption.
+Qed.
+
+Lemma unwind_out d ps s rest lk st' :
+  unwind d ps (mkrst (s :: rest) lk) = Ok st' ->
+  exists s', st' = mkrst (s' :: rest) lk /\ same_out s s'.
+Proof.
+  intros H. unfold unwind in H. bind_inv H st1 H1. bind_inv H st2 H2. bind_inv H st3 H3.
+  assert (A1 : exists s1, st1 = mkrst (s1 :: rest) lk /\ same_out s s1).
+  { destruct (p_bg ps).
+    - eapply with_top'_out; [|exact H1]. intros x. unfold pop_bgcolour, pop_colour, pop_ann.
+      destruct (d_colours d); repeat split.
+    - ok_inv H1. exists s. repeat split. }
+  destruct A1 as (s1 & -> & O1).
+  assert (A2 : exists s2, st2 = mkrst (s2 :: rest) lk /\ same_out s1 s2).
+  { destruct (p_colour ps).
+    - eapply with_top'_out; [|exact H2]. intros x. unfold pop_colour, pop_ann.
+      destruct (d_colours d); repeat split.
+    - ok_inv H2. exists s1. repeat split. }
+  destruct A2 as (s2 & -> & O2).
+  assert (A3 : exists s3, st3 = mkrst (s3 :: rest) lk /\ same_out s2 s3).
+  { destruct (p_ws ps).
+    - eapply with_top'_out; [|exact H3]. intros x. repeat split.
+    - ok_inv H3. exists s2. repeat split. }
+  destruct A3 as (s3 & -> & O3).
+  assert (A4 : exists s4, st' = mkrst (s4 :: rest) lk /\ same_out s3 s4).
+  { destruct (p_pre ps).
+    - destruct (with_top_mk _ _ _ _ _ H) as (s4 & E & ->). exists s4. split; [reflexivity|].
+      unfold pop_preformat in E. destruct (0 <? pre_depth s3); [|discriminate]. ok_inv E.
+      repeat split.
+    - ok_inv H. exists s3. repeat split. }
+  destruct A4 as (s4 & -> & O4). exists s4. split; [reflexivity|].
+  eapply same_out_trans; [|exact O4]. eapply same_out_trans; [|exact O3].
+  eapply same_out_trans; eassumption.
+Qed.
+
+Lemma same_out_lines s s' : same_out s s' -> out_lines s' = out_lines s.
+Proof. intros (A & B & C). unfold out_lines. rewrite (sub_into_lines_ext s s' A B C). reflexivity. Qed.
+
+Lemma rkids_single d mw n st : rkids d mw [n] st = render_node d mw n st.
+Proof. reflexivity. Qed.
+
+Section Stack.
+  Variables (d : deco) (mw : N).
+
+  (* a block quote rendered in a fresh sub-renderer (no lines, nothing pending): ALL its lines
+     are the lines of its content, rendered one level deeper, with the quote mark in front *)
+  Lemma quote_in_fresh cs sty tp w lk sub lk' ols :
+    render_node d mw (RN (IBlockQuote cs) sty) (mkrst [new_sub_renderer tp w] lk)
+      = Ok (mkrst [sub] lk') ->
+    sub_into_lines sub = Ok ols ->
+    let q := d_quote_prefix d in
+    exists tp2 ps mn sub2 ols2,
+      apply_style d (mkrst [new_sub_renderer tp w] lk) sty = Ok (mkrst [tp2] lk, ps) /\
+      nested (rkids d mw cs) tp2 lk (swidth q) mn sub2 lk' ols2 /\
+      strs ols = map (app q) (strs ols2).
+  Proof.
+    intros H Hols q.
+    destruct (c07_blockquote d mw cs sty _ _ H)
+      as (st & ps & tp2 & rest & mn & sub2 & lk2 & ols2 & s4 & s5 & Hap & Es & Hn & Hb & Hfin & Hl).
+    specialize (Hl (clean_top_fresh tp w lk)).
+    destruct (apply_style_out _ _ _ _ _ _ _ Hap) as (s' & -> & O1 & O2 & O3).
+    cbn [stack links] in Es, Hn. injection Es as <- <-.
+    destruct (unwind_out _ _ _ _ _ _ Hfin) as (s'' & E'' & O'). injection E'' as <- <-.
+    exists s', ps, mn, sub2, ols2. split; [exact Hap|]. split; [exact Hn|].
+    (* start_block on a sub-renderer without lines adds nothing *)
+    destruct Hb as [H4 H5].
+    assert (Hs4 : slines s4 = []).
+    { unfold start_block in H4. rewrite flush_none in H4 by (rewrite O3; reflexivity).
+      cbn [bind] in H4. rewrite O1 in H4. cbn [new_sub_renderer sub_new set_ann slines existsb bind] in H4.
+      ok_inv H4. sprj. rewrite O1. reflexivity. }
+    rewrite Hs4 in Hl. cbn [strs map app] in Hl.
+    rewrite <- (same_out_lines _ _ O') in Hl. unfold out_lines in Hl. rewrite Hols in Hl.
+    cbn [bind] in Hl. injection Hl as Hl. exact Hl.
+  Qed.
+
+  (* quote inside quote: every line of the inner content carries both marks *)
+  Theorem c07_quote_in_quote cs sty2 sty st0 st' :
+    render_node d mw (RN (IBlockQuote [RN (IBlockQuote cs) sty2]) sty) st0 = Ok st' ->
+    clean_top st0 ->
+    let q := d_quote_prefix d in
+    exists st ps tp rest w mn sub lk' s4 s5 tp2 ps2 mn2 sub2 ols2,
+      apply_style d st0 sty = Ok (st, ps) /\ stack st = tp :: rest /\
+      width_minus tp (swidth q) mn = Ok w /\
+      apply_style d (mkrst [new_sub_renderer tp w] (links st)) sty2 = Ok (mkrst [tp2] (links st), ps2) /\
+      nested (rkids d mw cs) tp2 (links st) (swidth q) mn2 sub2 lk' ols2 /\
+      block_eq tp sub q s4 s5 /\
+      unwind d ps (mkrst (end_block s5 :: rest) lk') = Ok st' /\
+      out_lines (end_block s5) = Ok (strs (slines s4) ++ map (fun l => q ++ q ++ l) (strs ols2)).
+  Proof.
+    intros H Hc q.
+    destruct (c07_blockquote d mw _ sty _ _ H)
+      as (st & ps & tp & rest & mn & sub & lk' & ols & s4 & s5 & Hap & Es & Hn & Hb & Hfin & Hl).
+    specialize (Hl Hc). destruct Hn as (w & Hw & Hbody & Hols). rewrite rkids_single in Hbody.
+    destruct (quote_in_fresh cs sty2 tp w (links st) sub lk' ols Hbody Hols)
+      as (tp2 & ps2 & mn2 & sub2 & ols2 & Hap2 & Hn2 & Hs).
+    exists st, ps, tp, rest, w, mn, sub, lk', s4, s5, tp2, ps2, mn2, sub2, ols2.
+    repeat (split; [assumption|]). rewrite Hl. fold q in Hs. rewrite Hs, map_map. reflexivity.
+  Qed.
+End Stack.
+Print Assumptions c07_quote_in_quote.
+
+(* ================================================================== *)
+(* 8. C07: non-vacuity examples                                         *)
+(* ================================================================== *)
+Definition exA_o : ropts := render_options (with_decorator plain_deco).
+Definition exA_st0 : rstate := mkrst [sub_new 12 exA_o] [].
+Definition exA_st0w : rstate := mkrst [sub_new 16 exA_o] [].
+(* the code points of the line strings of the top sub-renderer *)
+Definition top_lines (r : res rstate) : res (list (list N)) :=
+  do st <- r; do s <- top st; do ls <- out_lines s; Ok (map cps ls).
+Definition exA_txt (l : list N) : rnode := ex_n (IText (ex_str l)).
+Definition exA_li (l : list N) : rnode := ex_n (IListItem [exA_txt l]).
+(* "hello wide world" *)
+Definition exA_hww : list N := [104;101;108;108;111;32;119;105;100;101;32;119;111;114;108;100].
+Definition exA_of (r : res rstate) : rstate := match r with Ok st => st | _ => mkrst [] [] end.
+
+(* block quote at width 12: the content wrapped at width 10, "> " on every line *)
+Definition exA_quote : rnode := ex_n (IBlockQuote [exA_txt exA_hww]).
+Example exA_quote_lines :
+  top_lines (render_node plain_deco 3 exA_quote exA_st0)
+  = Ok [[62;32; 104;101;108;108;111;32;119;105;100;101]; [62;32; 119;111;114;108;100]] /\
+  top_lines (rkids plain_deco 3 [exA_txt exA_hww] (mkrst [new_sub_renderer (sub_new 12 exA_o) 10] []))
+  = Ok [[104;101;108;108;111;32;119;105;100;101]; [119;111;114;108;100]].
+Proof. split; vm_compute; reflexivity. Qed.
+Example exA_quote_ok :
+  render_node plain_deco 3 exA_quote exA_st0 = Ok (exA_of (render_node plain_deco 3 exA_quote exA_st0)).
+Proof. vm_compute. reflexivity. Qed.
+(* the theorem applies (its conclusion, instantiated) *)
+Example exA_quote_applies := c07_blockquote plain_deco 3 _ _ _ _ exA_quote_ok.
+
+(* heading level 2: "## " on every line *)
+Definition exA_header : rnode := ex_n (IHeader 2 [exA_txt exA_hww]).
+Example exA_header_lines :
+  top_lines (render_node plain_deco 3 exA_header exA_st0)
+  = Ok [[35;35;32; 104;101;108;108;111]; [35;35;32; 119;105;100;101]; [35;35;32; 119;111;114;108;100]].
+Proof. vm_compute. reflexivity. Qed.
+Example exA_header_ok :
+  render_node plain_deco 3 exA_header exA_st0 = Ok (exA_of (render_node plain_deco 3 exA_header exA_st0)).
+Proof. vm_compute. reflexivity. Qed.
+Example exA_header_applies := c07_header plain_deco 3 _ _ _ _ _ exA_header_ok.
+
+(* definition: two spaces on every line *)
+Definition exA_dd : rnode := ex_n (IDd [exA_txt exA_hww]).
+Example exA_dd_lines :
+  top_lines (render_node plain_deco 3 exA_dd exA_st0)
+  = Ok [[32;32; 104;101;108;108;111;32;119;105;100;101]; [32;32; 119;111;114;108;100]].
+Proof. vm_compute. reflexivity. Qed.
+Example exA_dd_ok :
+  render_node plain_deco 3 exA_dd exA_st0 = Ok (exA_of (render_node plain_deco 3 exA_dd exA_st0)).
+Proof. vm_compute. reflexivity. Qed.
+Example exA_dd_applies := c07_dd plain_deco 3 _ _ _ _ exA_dd_ok.
+
+(* unordered list: "* " on an item's first line, two spaces on its later lines *)
+Definition exA_ul : rnode := ex_n (IUl [exA_li exA_hww; exA_li [120]]).
+Example exA_ul_lines :
+  top_lines (render_node plain_deco 3 exA_ul exA_st0)
+  = Ok [[42;32; 104;101;108;108;111;32;119;105;100;101]; [32;32; 119;111;114;108;100]; [42;32; 120]].
+Proof. vm_compute. reflexivity. Qed.
+Example exA_ul_ok :
+  render_node plain_deco 3 exA_ul exA_st0 = Ok (exA_of (render_node plain_deco 3 exA_ul exA_st0)).
+Proof. vm_compute. reflexivity. Qed.
+Example exA_ul_applies := c07_ul plain_deco 3 _ _ _ _ exA_ul_ok (clean_top_initial 12 exA_o).
+
+(* ordered list from 9: "9.  " and "10. " (common width 4), four spaces on later lines *)
+Definition exA_ol : rnode := ex_n (IOl 9 [exA_li exA_hww; exA_li [120]]).
+Example exA_ol_lines :
+  top_lines (render_node plain_deco 3 exA_ol exA_st0)
+  = Ok [[57;46;32;32; 104;101;108;108;111]; [32;32;32;32; 119;105;100;101];
+        [32;32;32;32; 119;111;114;108;100]; [49;48;46;32; 120]] /\
+  ol_prefix_size plain_deco 9 2 = Ok 4 /\
+  map cps [ol_marker plain_deco 4 (ol_num 9 0); ol_marker plain_deco 4 (ol_num 9 1); ol_indent 4]
+  = [[57;46;32;32]; [49;48;46;32]; [32;32;32;32]].
+Proof. repeat split; vm_compute; reflexivity. Qed.
+Example exA_ol_ok :
+  render_node plain_deco 3 exA_ol exA_st0 = Ok (exA_of (render_node plain_deco 3 exA_ol exA_st0)).
+Proof. vm_compute. reflexivity. Qed.
+Example exA_ol_applies := c07_ol plain_deco 3 _ _ _ _ _ exA_ol_ok (clean_top_initial 12 exA_o).
+Example exA_ol_marker_width :
+  swidth (ol_marker plain_deco 4 (ol_num 9 1)) = 4 :=
+  ol_marker_width plain_deco 9 2 4 1 ol_prefix_monotone_plain ol_prefix_sat_plain
+                  ltac:(unfold i64_min; lia) eq_refl ltac:(lia).
+
+(* stacking: ul inside a quote inside an ordered item, width 16 *)
+Definition exA_nest : rnode :=
+  ex_n (IOl 9 [ex_n (IListItem [ex_n (IBlockQuote [ex_n (IUl [exA_li exA_hww; exA_li [120]])])]);
+               exA_li [121]]).
+Example exA_nest_lines :
+  top_lines (render_node plain_deco 3 exA_nest exA_st0w)
+  = Ok [[57;46;32;32; 62;32; 42;32; 104;101;108;108;111];
+        [32;32;32;32; 62;32; 32;32; 119;105;100;101];
+        [32;32;32;32; 62;32; 32;32; 119;111;114;108;100];
+        [32;32;32;32; 62;32; 42;32; 120];
+        [49;48;46;32; 121]].
+Proof. vm_compute. reflexivity. Qed.
+
+(* quote in quote *)
+Definition exA_qq : rnode := ex_n (IBlockQuote [ex_n (IBlockQuote [exA_txt exA_hww])]).
+Example exA_qq_lines :
+  top_lines (render_node plain_deco 3 exA_qq exA_st0)
+  = Ok [[62;32;62;32; 104;101;108;108;111]; [62;32;62;32; 119;105;100;101];
+        [62;32;62;32; 119;111;114;108;100]].
+Proof. vm_compute. reflexivity. Qed.
+Example exA_qq_ok :
+  render_node plain_deco 3 exA_qq exA_st0 = Ok (exA_of (render_node plain_deco 3 exA_qq exA_st0)).
+Proof. vm_compute. reflexivity. Qed.
+Example exA_qq_applies :=
+  c07_quote_in_quote plain_deco 3 _ _ _ _ _ exA_qq_ok (clean_top_initial 12 exA_o).
+
+Print Assumptions node_sim_all.
+Print Assumptions frame.
+Print Assumptions c07_blockquote.
+Print Assumptions c07_header.
+Print Assumptions c07_dd.
+Print Assumptions c07_ul.
+Print Assumptions c07_ol.
+Print Assumptions ol_marker_width.
+Print Assumptions ol_num_consecutive.
+Print Assumptions exA_ol_marker_width.
